@@ -3,11 +3,13 @@ No-fault refinement lemmas for C10: the host model in closed loop with the live 
 effect `specOp` defines (see Model/Mboot.lean, "specification vocabulary").
 Helper lemmas about codecs / CRC / splitting: Proofs/Mboot.lean.
 
-Structure: monad plumbing for `H`; exact equations for the read primitives; `Host.Is` (the host after some
-communication, relative to a reference host) as the invariant of every step lemma; the reference device one
-write at a time; `_process_cmd` per transport and transport-generic (`processCmd_single/_fromHost/_toHost`);
-data phases by induction (`Feeds`, `sendChunks_ok`, `readDataLoop_ok`); one `refines_<op>` per covered operation;
-`op_refines` (either transport) from which `op_refines_serial` / `op_refines_hid` follow.
+Structure: monad plumbing for `H`; exact equations for the read primitives (`Host.rd`, `Host.rdR`); `Host.Is` (the host
+after some communication, relative to a reference host; `reads`, `txRev`, `relRev` unconstrained) as the invariant of
+every step lemma; the reference device one write at a time; `_process_cmd` per transport and transport-generic
+(`processCmd_single/_fromHost/_toHost`); data phases by induction (`Feeds`, `sendChunks_ok`, `sendChunks_stray`,
+`readDataLoop_ok`, `readChunks_ok`); generic `dataOutCmd_ok/_refused`, `dataInCmd_ok/_refused`, `refines_logged`;
+one `refines_<op>` per covered operation; `specOp_OK`; `op_refines` (either transport) from which
+`op_refines_serial` / `op_refines_hid` follow.
 -/
 import SpsdkVerif.Model.Mboot
 import SpsdkVerif.Proofs.Mboot
@@ -15,7 +17,7 @@ import SpsdkVerif.Proofs.Mboot
 namespace SpsdkVerif.Mboot
 open SpsdkVerif H
 
-/-! ### the specified device stays well-formed -/
+/-! ### lengths -/
 
 theorem splice_length (mem : Bytes) (a : Nat) (d : Bytes) (h : a + d.length ≤ mem.length) :
     (splice mem a d).length = mem.length := by
@@ -28,33 +30,6 @@ theorem fillBytes_length (k pat : Nat) : (fillBytes k pat).length = 4 * k := by
 
 theorem fillPattern_length (n pat : Nat) : (fillPattern n pat).length = n := by
   simp [fillPattern, fillBytes_length]; omega
-
-/-- the specified device after an operation is again a well-formed device with the same packet size -/
-theorem specOp_OK (ce : Bool) (d d' : Dev) (op : Op) (res : Except HErr Val) (st : Nat)
-    (hd : d.OK) (hidle : d.phase = .idle) (hargs : op.argsOK) (hspec : specOp ce d op = some (d', res, st)) :
-    d'.OK ∧ d'.maxPacket = d.maxPacket ∧ d'.phase = .idle := by
-  obtain ⟨h1, h2, h3, h4, h5⟩ := hd
-  cases op <;> simp only [specOp, reduceCtorEq] at hspec
-  all_goals (try split at hspec)
-  all_goals (try split at hspec)
-  all_goals (try split at hspec)
-  all_goals (simp only [Option.some.injEq, Prod.mk.injEq] at hspec; obtain ⟨rfl, -, -⟩ := hspec)
-  all_goals refine ⟨⟨h1, h2, ?_, h4, ?_⟩, rfl, hidle⟩
-  all_goals (try exact h3)
-  all_goals (try exact h5)
-  · intro q hq
-    simp only [List.mem_cons, List.mem_filter] at hq
-    rcases hq with rfl | ⟨hq, -⟩
-    · exact hargs.2
-    · exact h5 q hq
-  · show (splice d.mem _ _).length < _
-    rw [splice_length _ _ _ (by rw [fillPattern_length]; assumption)]; exact h3
-  · show (splice d.mem _ _).length < _
-    rw [splice_length _ _ _ (by rw [List.length_replicate]; assumption)]; exact h3
-  · show (List.replicate _ _).length < _
-    rw [List.length_replicate]; exact h3
-  · show (splice d.mem _ _).length < _
-    rw [splice_length _ _ _ (by assumption)]; exact h3
 
 /-! ### monad plumbing -/
 
@@ -82,15 +57,22 @@ theorem catch_err {m : H α} {hd : HErr → H α} {s s' : Host} {e : HErr} (h : 
     (if c then m1 else m2) s = if c then m1 s else m2 s := by split <;> rfl
 end plumbing
 
+
+/-! ### read primitives (exact equations; `Host.rd` = the host after `k` successful `device.read`s) -/
+
+/-- the host after `k` more `device.read` calls that left `b` in the serial receive buffer -/
+def Host.rd (h : Host) (k : Nat) (b : Bytes) : Host := { h with reads := h.reads + k, rxB := b }
+
 theorem devRead_ok (n : Nat) (h : Host) (a b : Bytes) (hn : 0 < n) (ha : a.length = n) (hrx : h.rxB = a ++ b) :
-    devRead n h = (.ok a, { h with rxB := b }) := by
+    devRead n h = (.ok a, h.rd 1 b) := by
   unfold devRead
   have h1 : ¬ (n = 0 ∨ h.rxB.isEmpty = true) := by
     rw [hrx]; cases a with
     | nil => simp at ha; omega
     | cons x r => simp; omega
   have h2 : n ≤ h.rxB.length := by rw [hrx]; simp; omega
-  rw [if_neg h1, if_pos h2, hrx, ← ha]
+  simp only [h1, h2, if_false, if_true, Host.rd]
+  rw [hrx, ← ha]
   simp
 
 /-- a frame header `0x5A, t` at the front of the stream -/
@@ -98,12 +80,12 @@ theorem readFrameHeader_ok (exp : Option Nat) (h : Host) (b0 b1 : UInt8) (t : Na
     (hb0 : b0.toNat = Spec.startByte) (hb1 : b1.toNat = t)
     (ht : t = Spec.fAck ∨ t = Spec.fCmd ∨ t = Spec.fData) (hexp : exp = none ∨ exp = some t)
     (hrx : h.rxB = b0 :: b1 :: rest) :
-    readFrameHeader exp h = (.ok (Spec.startByte, t), { h with rxB := rest }) := by
-  have e1 : devRead 1 h = (.ok [b0], { h with rxB := b1 :: rest }) :=
+    readFrameHeader exp h = (.ok (Spec.startByte, t), (h.rd 1 (b1 :: rest)).rd 1 rest) := by
+  have e1 : devRead 1 h = (.ok [b0], h.rd 1 (b1 :: rest)) :=
     devRead_ok 1 h [_] _ (by omega) rfl hrx
-  have e2 : devRead 1 { h with rxB := b1 :: rest } = (.ok [b1], { h with rxB := rest }) :=
+  have e2 : devRead 1 (h.rd 1 (b1 :: rest)) = (.ok [b1], (h.rd 1 (b1 :: rest)).rd 1 rest) :=
     devRead_ok 1 _ [_] _ (by omega) rfl rfl
-  have e0 : waitForData h = (.ok Spec.startByte, { h with rxB := b1 :: rest }) := by
+  have e0 : waitForData h = (.ok Spec.startByte, h.rd 1 (b1 :: rest)) := by
     unfold waitForData
     rw [hrx]
     simp only [List.length_cons, waitGo]
@@ -111,7 +93,8 @@ theorem readFrameHeader_ok (exp : Option Nat) (h : Host) (b0 b1 : UInt8) (t : Na
     simp [fromLe, hb0]
   unfold readFrameHeader
   rw [bind_ok e0]
-  rcases ht with rfl | rfl | rfl <;> rcases hexp with rfl | rfl <;> simp [bind_run, e2, fromLe, hb1, Spec.startByte, Spec.fAck, Spec.fCmd, Spec.fData, Spec.fAbort]
+  rcases ht with rfl | rfl | rfl <;> rcases hexp with rfl | rfl <;>
+    simp [bind_run, e2, fromLe, hb1, Spec.startByte, Spec.fAck, Spec.fCmd, Spec.fData, Spec.fAbort]
 
 /-- `h'` is the reference host `h` after some communication: status `st`, peer = live device `d`,
     pending device→host bytes `rxB` / reports `rxR`; configuration fields untouched -/
@@ -126,12 +109,16 @@ structure Host.Is (h' h : Host) (st : Nat) (d : Dev) (rxB : Bytes) (rxR : List B
   rxB : h'.rxB = rxB
   rxR : h'.rxR = rxR
 
-theorem Host.Is.setRxB {h1 h0 : Host} {st d b r} (hI : h1.Is h0 st d b r) (b' : Bytes) :
-    ({ h1 with rxB := b' } : Host).Is h0 st d b' r :=
+
+theorem Host.Is.rd {h1 h0 : Host} {st d b r} (hI : h1.Is h0 st d b r) (k : Nat) (b' : Bytes) :
+    (h1.rd k b').Is h0 st d b' r :=
   ⟨hI.cfg, hI.mps, hI.eda, hI.opened, hI.fuelHint, hI.status, hI.peer, rfl, hI.rxR⟩
 
-theorem Host.Is.setRxR {h1 h0 : Host} {st d b r} (hI : h1.Is h0 st d b r) (r' : List Bytes) :
-    ({ h1 with rxR := r' } : Host).Is h0 st d b r' :=
+/-- the host after one more `device.read` that left the reports `rs` pending -/
+def Host.rdR (h : Host) (rs : List Bytes) : Host := { h with reads := h.reads + 1, rxR := rs }
+
+theorem Host.Is.rdR {h1 h0 : Host} {st d b r} (hI : h1.Is h0 st d b r) (r' : List Bytes) :
+    (h1.rdR r').Is h0 st d b r' :=
   ⟨hI.cfg, hI.mps, hI.eda, hI.opened, hI.fuelHint, hI.status, hI.peer, hI.rxB, rfl⟩
 
 theorem Host.Is.setStatus {h1 h0 : Host} {st d b r} (hI : h1.Is h0 st d b r) (st' : Nat) :
@@ -166,7 +153,7 @@ theorem serialSendFrame_ok {h1 h0 : Host} {st d r} (hI : h1.Is h0 st d [] r) (ht
   have hw := hI.write_serial htr (mkFrame t data)
   rw [hstep] at hw
   simp only [List.nil_append] at hw
-  refine ⟨{ h1.write (mkFrame t data) with rxB := out }, ?_, hw.setRxB out⟩
+  refine ⟨_, ?_, (hw.rd 1 (UInt8.ofNat Spec.fAck :: out)).rd 1 out⟩
   unfold serialSendFrame
   rw [if_neg (by omega), bind_ok (devWrite_run _ _)]
   rw [bind_ok (readFrameHeader_ok (some Spec.fAck) _ _ (UInt8.ofNat Spec.fAck) Spec.fAck out b0_toNat (by decide) (Or.inl rfl) (Or.inr rfl)
@@ -191,12 +178,17 @@ theorem serialRead_ok {h1 h0 : Host} {st d r} {t : Nat} {p rest : Bytes}
   have hrx : h1.rxB = UInt8.ofNat Spec.startByte :: UInt8.ofNat t :: (le 2 p.length ++ (le 2 (frameCrc t p) ++ (p ++ rest))) := by
     rw [hI.rxB]; simp [mkFrame]
   have e1 := readFrameHeader_ok none h1 _ _ t _ b0_toNat hbt (Or.inr ht) (Or.inl rfl) hrx
-  have e2 := devRead_ok 2 { h1 with rxB := le 2 p.length ++ (le 2 (frameCrc t p) ++ (p ++ rest)) }
-    (le 2 p.length) _ (by omega) (le_length _ _) rfl
-  have e3 := devRead_ok 2 { h1 with rxB := le 2 (frameCrc t p) ++ (p ++ rest) }
-    (le 2 (frameCrc t p)) _ (by omega) (le_length _ _) rfl
-  have e4 := devRead_ok p.length { h1 with rxB := p ++ rest } p rest hplen rfl rfl
-  have hI4 := (hI.setRxB rest).write_serial htr ackFrame
+  obtain ⟨g1, hg1⟩ : ∃ g, g = (h1.rd 1 (UInt8.ofNat t :: (le 2 p.length ++ (le 2 (frameCrc t p) ++ (p ++ rest))))).rd 1
+      (le 2 p.length ++ (le 2 (frameCrc t p) ++ (p ++ rest))) := ⟨_, rfl⟩
+  rw [← hg1] at e1
+  have hI1 : g1.Is h0 st d (le 2 p.length ++ (le 2 (frameCrc t p) ++ (p ++ rest))) r := by
+    rw [hg1]; exact (hI.rd 1 _).rd 1 _
+  have e2 := devRead_ok 2 g1 (le 2 p.length) _ (by omega) (le_length _ _) hI1.rxB
+  have hI2 := hI1.rd 1 (le 2 (frameCrc t p) ++ (p ++ rest))
+  have e3 := devRead_ok 2 _ (le 2 (frameCrc t p)) _ (by omega) (le_length _ _) hI2.rxB
+  have hI3 := hI2.rd 1 (p ++ rest)
+  have e4 := devRead_ok p.length _ p rest hplen rfl hI3.rxB
+  have hI4 := (hI3.rd 1 rest).write_serial htr ackFrame
   refine ⟨_, ?_, hI4⟩
   unfold serialRead
   rw [bind_ok e1]
@@ -220,7 +212,8 @@ theorem stepSerial_cmd (d : Dev) (pkt : CmdPkt) (hwf : pkt.WF) :
       | .toHost d' r data fs =>
         ({ d' with phase := .send pkt.tag (split d'.maxPacket data) fs }, ackFrame ++ mkFrame Spec.fCmd r)
       | .fromHost d' r a n fs =>
-        ({ d' with phase := if n = 0 then .send pkt.tag [] fs else .recv pkt.tag a n fs }, ackFrame ++ mkFrame Spec.fCmd r) := by
+        (if n = 0 then { d'.finishData pkt.tag with phase := .send pkt.tag [] fs } else { d' with phase := .recv pkt.tag a n fs },
+          ackFrame ++ mkFrame Spec.fCmd r) := by
   have hlen : pkt.encode.length < 65536 := by rw [encode_length]; have := hwf.count; omega
   have h1 : mkFrame Spec.fCmd pkt.encode ≠ pingFrame := by
     intro e; have := congrArg List.length e; rw [mkFrame_length] at this; simp [pingFrame] at this; omega
@@ -233,12 +226,16 @@ theorem stepSerial_cmd (d : Dev) (pkt : CmdPkt) (hwf : pkt.WF) :
   simp only [if_true, cmd_roundtrip' pkt hwf]
   cases d.exec pkt <;> rfl
 
-theorem stepSerial_data (d : Dev) (c : Bytes) (hlen : c.length < 65536) :
+theorem abortsNow_false (d : Dev) (h : d.abortAfter = none) : d.abortsNow = false := by
+  unfold Dev.abortsNow
+  rw [h]
+  cases d.phase <;> rfl
+
+/-- a data packet the device accepts (no forced abort) -/
+theorem stepSerial_data_acc (d : Dev) (c : Bytes) (hlen : c.length < 65536) (hab : d.abortsNow = false)
+    (d' : Dev) (fin : Option Bytes) (hacc : d.acceptData c = some (d', fin)) :
     d.stepSerial (mkFrame Spec.fData c) =
-      match d.acceptData c with
-      | some (d', none) => (d', ackFrame)
-      | some (d', some fin) => (d', ackFrame ++ mkFrame Spec.fCmd fin)
-      | none => ((d.refuseData).1, ackFrame ++ mkFrame Spec.fCmd (d.refuseData).2) := by
+      (d', ackFrame ++ (match fin with | none => [] | some f => mkFrame Spec.fCmd f)) := by
   have h1 : mkFrame Spec.fData c ≠ pingFrame := by
     intro e; have := congrArg List.length e; rw [mkFrame_length] at this; simp [pingFrame] at this; omega
   have h2 : mkFrame Spec.fData c ≠ ackFrame := by
@@ -249,7 +246,26 @@ theorem stepSerial_data (d : Dev) (c : Bytes) (hlen : c.length < 65536) :
   rw [if_neg h1, if_neg h2, h3]
   simp only [if_true]
   rw [if_neg (by decide)]
-  rcases d.acceptData c with _ | ⟨d', _ | fin⟩ <;> rfl
+  simp only [hab, hacc, Bool.false_eq_true, if_false]
+  cases fin <;> simp
+
+/-- a data packet outside a data phase that the device collects (image mode) -/
+theorem stepSerial_data_stray (d : Dev) (c : Bytes) (hlen : c.length < 65536) (hph : d.phase = .idle)
+    (d' : Dev) (hs : d.strayData c = some d') :
+    d.stepSerial (mkFrame Spec.fData c) = (d', ackFrame) := by
+  have h1 : mkFrame Spec.fData c ≠ pingFrame := by
+    intro e; have := congrArg List.length e; rw [mkFrame_length] at this; simp [pingFrame] at this; omega
+  have h2 : mkFrame Spec.fData c ≠ ackFrame := by
+    intro e; have := congrArg List.length e; rw [mkFrame_length] at this; simp [ackFrame] at this; omega
+  have h3 := frame_roundtrip' Spec.fData c [] (by decide) hlen
+  rw [List.append_nil] at h3
+  have hab : d.abortsNow = false := by unfold Dev.abortsNow; rw [hph]
+  have hacc : d.acceptData c = none := by unfold Dev.acceptData; rw [hph]
+  unfold Dev.stepSerial
+  rw [if_neg h1, if_neg h2, h3]
+  simp only [if_true]
+  rw [if_neg (by decide)]
+  simp only [hab, hacc, hs, Bool.false_eq_true, if_false, hph]
 
 theorem stepSerial_ack (d : Dev) :
     d.stepSerial ackFrame =
@@ -264,6 +280,7 @@ theorem stepSerial_ack (d : Dev) :
 theorem stepSerial_ack_idle (d : Dev) (h : d.phase = .idle) : d.stepSerial ackFrame = (d, []) := by
   rw [stepSerial_ack, h]
 
+
 theorem stepHid_cmd (d : Dev) (pkt : CmdPkt) (hwf : pkt.WF) :
     d.stepHid (mkReport Spec.ridCmdOut pkt.encode) =
       match d.exec pkt with
@@ -274,7 +291,8 @@ theorem stepHid_cmd (d : Dev) (pkt : CmdPkt) (hwf : pkt.WF) :
           [padTo d.hidPad (mkReport Spec.ridCmdIn (genericResp fs pkt.tag))])
       | .fromHost d' r a n fs =>
         if n = 0 then
-          (d', [padTo d.hidPad (mkReport Spec.ridCmdIn r), padTo d.hidPad (mkReport Spec.ridCmdIn (genericResp fs pkt.tag))])
+          (d'.finishData pkt.tag,
+            [padTo d.hidPad (mkReport Spec.ridCmdIn r), padTo d.hidPad (mkReport Spec.ridCmdIn (genericResp fs pkt.tag))])
         else ({ d' with phase := .recv pkt.tag a n fs }, [padTo d.hidPad (mkReport Spec.ridCmdIn r)]) := by
   have hlen : pkt.encode.length < 65536 := by rw [encode_length]; have := hwf.count; omega
   have h3 := hid_roundtrip' Spec.ridCmdOut pkt.encode [] (by decide) hlen
@@ -283,18 +301,29 @@ theorem stepHid_cmd (d : Dev) (pkt : CmdPkt) (hwf : pkt.WF) :
   simp only [h3, if_true, cmd_roundtrip' pkt hwf]
   cases d.exec pkt <;> rfl
 
-theorem stepHid_data (d : Dev) (c : Bytes) (hlen : c.length < 65536) :
+theorem stepHid_data_acc (d : Dev) (c : Bytes) (hlen : c.length < 65536) (hab : d.abortsNow = false)
+    (d' : Dev) (fin : Option Bytes) (hacc : d.acceptData c = some (d', fin)) :
     d.stepHid (mkReport Spec.ridDataOut c) =
-      match d.acceptData c with
-      | some (d', none) => (d', [])
-      | some (d', some fin) => (d', [padTo d.hidPad (mkReport Spec.ridCmdIn fin)])
-      | none => ((d.refuseData).1, [padTo d.hidPad (mkReport Spec.ridCmdIn (d.refuseData).2)]) := by
+      (d', match fin with | none => [] | some f => [padTo d.hidPad (mkReport Spec.ridCmdIn f)]) := by
   have h3 := hid_roundtrip' Spec.ridDataOut c [] (by decide) hlen
   rw [List.append_nil] at h3
   unfold Dev.stepHid
   simp only [h3, if_true]
   rw [if_neg (by decide)]
-  rcases d.acceptData c with _ | ⟨d', _ | fin⟩ <;> rfl
+  simp only [hab, hacc, Bool.false_eq_true, if_false]
+  cases fin <;> rfl
+
+theorem stepHid_data_stray (d : Dev) (c : Bytes) (hlen : c.length < 65536) (hph : d.phase = .idle)
+    (d' : Dev) (hs : d.strayData c = some d') :
+    d.stepHid (mkReport Spec.ridDataOut c) = (d', []) := by
+  have h3 := hid_roundtrip' Spec.ridDataOut c [] (by decide) hlen
+  rw [List.append_nil] at h3
+  have hab : d.abortsNow = false := by unfold Dev.abortsNow; rw [hph]
+  have hacc : d.acceptData c = none := by unfold Dev.acceptData; rw [hph]
+  unfold Dev.stepHid
+  simp only [h3, if_true]
+  rw [if_neg (by decide)]
+  simp only [hab, hacc, hs, Bool.false_eq_true, if_false, hph]
 
 /-! ### HID primitives -/
 
@@ -319,6 +348,7 @@ theorem hidParseFrame_report (k rid : Nat) (p : Bytes) (hrid : rid < 256) (hp0 :
 theorem padTo_ne_nil (k rid : Nat) (p : Bytes) : (padTo k (mkReport rid p)).isEmpty = false := by
   simp [padTo, mkReport]
 
+
 theorem hidRead_ok (h1 : Host) (k rid : Nat) (p : Bytes) (rs : List Bytes)
     (hrx : h1.rxR = padTo k (mkReport rid p) :: rs) (hrid : rid < 256) (hp0 : p ≠ []) (hp : p.length < 65536) :
     hidRead h1 =
@@ -326,11 +356,10 @@ theorem hidRead_ok (h1 : Host) (k rid : Nat) (p : Bytes) (rs : List Bytes)
           match parseCmdResponse p with
           | .ok r => .ok (.resp r)
           | .error e => .error e
-        else .ok (.data p)), { h1 with rxR := rs }) := by
-  have e1 : hidDevRead h1 = (.ok (padTo k (mkReport rid p)), { h1 with rxR := rs }) := by
+        else .ok (.data p)), h1.rdR rs) := by
+  have e1 : hidDevRead h1 = (.ok (padTo k (mkReport rid p)), h1.rdR rs) := by
     unfold hidDevRead
-    rw [hrx]
-    simp only [padTo_ne_nil, Bool.false_eq_true, if_false]
+    simp only [hrx, padTo_ne_nil, Bool.false_eq_true, if_false, Host.rdR]
   unfold hidRead
   rw [bind_ok e1, lift_run, hidParseFrame_report k rid p hrid hp0 hp]
 
@@ -406,24 +435,25 @@ theorem processCmd_hid {h1 h0 : Host} {st d} (hI : h1.Is h0 st d [] []) (htr : h
     rfl
   have e3 := hidRead_ok h2 k Spec.ridCmdIn resp rs hI2.rxR (by decide) hr0 hr
   rw [if_pos rfl, hparse] at e3
-  have er : readAny h2 = (.ok (.resp rr), { h2 with rxR := rs }) := by
+  have er : readAny h2 = (.ok (.resp rr), h2.rdR rs) := by
     unfold readAny
     rw [bind_ok (get_run _)]
     have htr2 : h2.cfg.tr = .hid := by rw [hI2.cfg, htr]
     simp only [htr2]
     exact e3
-  refine ⟨_, ?_, (hI2.setRxR rs).setStatus rr.status⟩
+  refine ⟨_, ?_, (hI2.rdR rs).setStatus rr.status⟩
   unfold processCmd
   rw [bind_ok (requireOpen_ok h1 (by rw [hI.opened, hop]))]
   rw [bind_ok (catch_ok (by rw [bind_ok ew]; exact er))]
   simp only []
   rw [processCmd_tail]
-  simp only [hI2.cfg]
+  simp only [Host.rdR, hI2.cfg]
+
 
 /-! ### what the commands do on a device without forced errors -/
 
 /-- the device after it has taken one more command -/
-def Dev.next (d : Dev) : Dev := { d with ncmd := d.ncmd + 1, phase := .idle }
+def Dev.next (d : Dev) : Dev := { d with ncmd := d.ncmd + 1, phase := .idle, pktCount := 0 }
 
 theorem faultAt_none (d : Dev) (hf : d.faults = []) (b : Bool) : faultAt d b = none := by
   simp [faultAt, hf]
@@ -490,15 +520,138 @@ theorem exec_receiveSbFile (d : Dev) (hf : d.faults = []) (n : Nat) :
   simp [Dev.exec, faultAt_none d hf, Dev.next, Spec.cFillMemory, Spec.cGetProperty, Spec.cSetProperty,
     Spec.cFlashEraseRegion, Spec.cFlashEraseAll, Spec.cReadMemory, Spec.cWriteMemory, Spec.cReceiveSbFile]
 
-theorem next_eq (d : Dev) (h : d.phase = .idle) : d.next = { d with ncmd := d.ncmd + 1 } := by
-  cases d; simp_all [Dev.next]
+/-- the commands the reference device only records (`p.tag` one of the five log-only tags) -/
+theorem exec_logOnly (d : Dev) (hf : d.faults = []) (tag : Nat) (ps : List Nat)
+    (ht : tag = Spec.cExecute ∨ tag = Spec.cCall ∨ tag = Spec.cFlashEraseAllUnsecure
+      ∨ tag = Spec.cConfigureMemory ∨ tag = Spec.cReliableUpdate) :
+    d.exec ⟨tag, 0, ps⟩ = .single { d.next with log := d.log ++ [(tag, ps)] } (genericResp 0 tag) := by
+  rcases ht with rfl | rfl | rfl | rfl | rfl <;>
+    simp [Dev.exec, faultAt_none d hf, Dev.next, Spec.cFillMemory, Spec.cGetProperty, Spec.cSetProperty,
+      Spec.cFlashEraseRegion, Spec.cFlashEraseAll, Spec.cReadMemory, Spec.cWriteMemory, Spec.cReceiveSbFile,
+      Spec.cExecute, Spec.cCall, Spec.cFlashEraseAllUnsecure, Spec.cConfigureMemory, Spec.cReliableUpdate]
+
+theorem exec_kpLog (d : Dev) (hf : d.faults = []) (ps : List Nat)
+    (hp : ps = [Spec.kpEnroll] ∨ (∃ m, ps = [Spec.kpWriteNonVolatile, m]) ∨ (∃ m, ps = [Spec.kpReadNonVolatile, m])
+      ∨ (∃ t z, ps = [Spec.kpSetIntrinsicKey, t, z])) :
+    d.exec ⟨Spec.cKeyProvisioning, 0, ps⟩ =
+      .single { d.next with log := d.log ++ [(Spec.cKeyProvisioning, ps)] } (genericResp 0 Spec.cKeyProvisioning) := by
+  rcases hp with rfl | ⟨m, rfl⟩ | ⟨m, rfl⟩ | ⟨t, z, rfl⟩ <;>
+    simp [Dev.exec, faultAt_none d hf, Dev.next, Spec.cFillMemory, Spec.cGetProperty, Spec.cSetProperty,
+      Spec.cFlashEraseRegion, Spec.cFlashEraseAll, Spec.cReadMemory, Spec.cWriteMemory, Spec.cReceiveSbFile,
+      Spec.cExecute, Spec.cCall, Spec.cFlashEraseAllUnsecure, Spec.cConfigureMemory, Spec.cReliableUpdate,
+      Spec.cReset, Spec.cFlashReadResource, Spec.cFlashReadOnce, Spec.cFlashProgramOnce, Spec.cKeyProvisioning,
+      Spec.kpEnroll, Spec.kpWriteNonVolatile, Spec.kpReadNonVolatile, Spec.kpSetIntrinsicKey]
+
+theorem exec_kpData (d : Dev) (hf : d.faults = []) (op t n : Nat) (hop : op = Spec.kpSetUserKey ∨ op = Spec.kpWriteKeyStore) :
+    d.exec ⟨Spec.cKeyProvisioning, Spec.flagHasDataPhase, [op, t, n]⟩ =
+      .fromHost { d.next with kpTarget := (op, t), kpBuf := [] } (genericResp 0 Spec.cKeyProvisioning) 0 n 0 := by
+  rcases hop with rfl | rfl <;>
+    simp [Dev.exec, faultAt_none d hf, Dev.next, Spec.cFillMemory, Spec.cGetProperty, Spec.cSetProperty,
+      Spec.cFlashEraseRegion, Spec.cFlashEraseAll, Spec.cReadMemory, Spec.cWriteMemory, Spec.cReceiveSbFile,
+      Spec.cExecute, Spec.cCall, Spec.cFlashEraseAllUnsecure, Spec.cConfigureMemory, Spec.cReliableUpdate,
+      Spec.cReset, Spec.cFlashReadResource, Spec.cFlashReadOnce, Spec.cFlashProgramOnce, Spec.cKeyProvisioning,
+      Spec.kpSetUserKey, Spec.kpWriteKeyStore, Spec.kpSetIntrinsicKey]
+
+theorem exec_kpReadKeyStore (d : Dev) (hf : d.faults = []) :
+    d.exec ⟨Spec.cKeyProvisioning, 0, [Spec.kpReadKeyStore]⟩ =
+      .toHost d.next (lenResp Spec.rKeyProv 0 d.keyStore.length) d.keyStore 0 := by
+  simp [Dev.exec, faultAt_none d hf, Dev.next, Spec.cFillMemory, Spec.cGetProperty, Spec.cSetProperty,
+    Spec.cFlashEraseRegion, Spec.cFlashEraseAll, Spec.cReadMemory, Spec.cWriteMemory, Spec.cReceiveSbFile,
+    Spec.cExecute, Spec.cCall, Spec.cFlashEraseAllUnsecure, Spec.cConfigureMemory, Spec.cReliableUpdate,
+    Spec.cReset, Spec.cFlashReadResource, Spec.cFlashReadOnce, Spec.cFlashProgramOnce, Spec.cKeyProvisioning,
+    Spec.kpReadKeyStore, Spec.kpEnroll]
+
+theorem exec_flashReadResource (d : Dev) (hf : d.faults = []) (a n o : Nat) :
+    d.exec ⟨Spec.cFlashReadResource, 0, [a, n, o]⟩ =
+      if a + n ≤ d.resource.length then
+        .toHost d.next (lenResp Spec.rFlashReadResource 0 n) ((d.resource.drop a).take n) 0
+      else .single d.next (genericResp Spec.stMemoryRangeInvalid Spec.cFlashReadResource) := by
+  simp [Dev.exec, faultAt_none d hf, Dev.next, Spec.cFillMemory, Spec.cGetProperty, Spec.cSetProperty,
+    Spec.cFlashEraseRegion, Spec.cFlashEraseAll, Spec.cReadMemory, Spec.cWriteMemory, Spec.cReceiveSbFile,
+    Spec.cExecute, Spec.cCall, Spec.cFlashEraseAllUnsecure, Spec.cConfigureMemory, Spec.cReliableUpdate,
+    Spec.cReset, Spec.cFlashReadResource]
+
+theorem exec_flashReadOnce4 (d : Dev) (hf : d.faults = []) (i : Nat) :
+    d.exec ⟨Spec.cFlashReadOnce, 0, [i, 4]⟩ = .single d.next (readOnceResp 0 4 [(d.fuses.lookup i).getD 0]) := by
+  simp [Dev.exec, faultAt_none d hf, Dev.next, Spec.cFillMemory, Spec.cGetProperty, Spec.cSetProperty,
+    Spec.cFlashEraseRegion, Spec.cFlashEraseAll, Spec.cReadMemory, Spec.cWriteMemory, Spec.cReceiveSbFile,
+    Spec.cExecute, Spec.cCall, Spec.cFlashEraseAllUnsecure, Spec.cConfigureMemory, Spec.cReliableUpdate,
+    Spec.cReset, Spec.cFlashReadResource, Spec.cFlashReadOnce]
+
+theorem exec_flashReadOnce8 (d : Dev) (hf : d.faults = []) (i : Nat) :
+    d.exec ⟨Spec.cFlashReadOnce, 0, [i, 8]⟩ =
+      .single d.next (readOnceResp 0 8 [(d.fuses.lookup i).getD 0, (d.fuses.lookup (i + 1)).getD 0]) := by
+  simp [Dev.exec, faultAt_none d hf, Dev.next, Spec.cFillMemory, Spec.cGetProperty, Spec.cSetProperty,
+    Spec.cFlashEraseRegion, Spec.cFlashEraseAll, Spec.cReadMemory, Spec.cWriteMemory, Spec.cReceiveSbFile,
+    Spec.cExecute, Spec.cCall, Spec.cFlashEraseAllUnsecure, Spec.cConfigureMemory, Spec.cReliableUpdate,
+    Spec.cReset, Spec.cFlashReadResource, Spec.cFlashReadOnce]
+
+theorem exec_flashProgramOnce4 (d : Dev) (hf : d.faults = []) (i v : Nat) :
+    d.exec ⟨Spec.cFlashProgramOnce, 0, [i, 4, v]⟩ =
+      .single (d.next.programFuse i v) (genericResp 0 Spec.cFlashProgramOnce) := by
+  simp [Dev.exec, faultAt_none d hf, Dev.next, Spec.cFillMemory, Spec.cGetProperty, Spec.cSetProperty,
+    Spec.cFlashEraseRegion, Spec.cFlashEraseAll, Spec.cReadMemory, Spec.cWriteMemory, Spec.cReceiveSbFile,
+    Spec.cExecute, Spec.cCall, Spec.cFlashEraseAllUnsecure, Spec.cConfigureMemory, Spec.cReliableUpdate,
+    Spec.cReset, Spec.cFlashReadResource, Spec.cFlashReadOnce, Spec.cFlashProgramOnce]
+
+/-! ### responses -/
 
 theorem genericResp_length (st tag : Nat) : (genericResp st tag).length = 12 := by simp [genericResp]
 theorem genericResp_ne_nil (st tag : Nat) : genericResp st tag ≠ [] := by simp [genericResp]
 theorem readMemResp_length (st n : Nat) : (readMemResp st n).length = 12 := by simp [readMemResp]
 theorem readMemResp_ne_nil (st n : Nat) : readMemResp st n ≠ [] := by simp [readMemResp]
+theorem lenResp_length (t st n : Nat) : (lenResp t st n).length = 12 := by simp [lenResp]
+theorem lenResp_ne_nil (t st n : Nat) : lenResp t st n ≠ [] := by simp [lenResp]
 theorem getPropResp1_length (st v : Nat) : (getPropResp st [v]).length = 12 := by simp [getPropResp]
 theorem getPropResp_ne_nil (st : Nat) (vs : List Nat) : getPropResp st vs ≠ [] := by simp [getPropResp]
+theorem readOnceResp_length (st n : Nat) (vs : List Nat) : (readOnceResp st n vs).length = 12 + 4 * vs.length := by
+  simp only [readOnceResp, List.length_append, List.length_cons, List.length_nil, le_length, flatMap_le4_length]
+theorem readOnceResp_ne_nil (st n : Nat) (vs : List Nat) : readOnceResp st n vs ≠ [] := by simp [readOnceResp]
+
+theorem lenResp_parse_resource (st len : Nat) (h1 : st < 4294967296) (h2 : len < 4294967296) :
+    parseCmdResponse (lenResp Spec.rFlashReadResource st len) =
+      .ok { kind := .flashReadResource, tag := Spec.rFlashReadResource, pc := 2, status := st, length := len } := by
+  have a : fromLe (le 4 st) = st := fromLe_le_of_lt 4 st (by omega)
+  have b : fromLe (le 4 len) = len := fromLe_le_of_lt 4 len (by omega)
+  have k : kindOf (UInt8.ofNat Spec.rFlashReadResource).toNat = .flashReadResource := by decide
+  simp only [lenResp, List.cons_append, List.nil_append, parseCmdResponse, k]
+  simp [a, b]
+  decide
+
+theorem lenResp_parse_keyProv (st len : Nat) (h1 : st < 4294967296) (h2 : len < 4294967296) :
+    parseCmdResponse (lenResp Spec.rKeyProv st len) =
+      .ok { kind := .keyProv, tag := Spec.rKeyProv, pc := 2, status := st, length := len } := by
+  have a : fromLe (le 4 st) = st := fromLe_le_of_lt 4 st (by omega)
+  have b : fromLe (le 4 len) = len := fromLe_le_of_lt 4 len (by omega)
+  have k : kindOf (UInt8.ofNat Spec.rKeyProv).toNat = .keyProv := by decide
+  simp only [lenResp, List.cons_append, List.nil_append, parseCmdResponse, k]
+  simp [a, b]
+  decide
+
+theorem drop8_le_le (a b : Nat) (x : Bytes) : (le 4 a ++ (le 4 b ++ x)).drop 8 = x := by
+  rw [show 8 = 4 + 4 from rfl, ← List.drop_drop, drop_le_append, drop_le_append]
+
+theorem readOnceResp_parse (st : Nat) (vals : List Nat) (h1 : st < 4294967296) (hv : ∀ v ∈ vals, v < 4294967296)
+    (hn : vals.length < 254) (hpos : 0 < vals.length) :
+    parseCmdResponse (readOnceResp st (4 * vals.length) vals) =
+      .ok { kind := .flashReadOnce, tag := Spec.rFlashReadOnce, pc := 2 + vals.length, status := st,
+            length := 4 * vals.length, values := vals, data := vals.flatMap (le 4) } := by
+  have a : fromLe (le 4 st) = st := fromLe_le_of_lt 4 st (by omega)
+  have b : fromLe (le 4 (4 * vals.length)) = 4 * vals.length := fromLe_le_of_lt 4 _ (by omega)
+  have k : kindOf (UInt8.ofNat Spec.rFlashReadOnce).toNat = .flashReadOnce := by decide
+  have e3 : (UInt8.ofNat (2 + vals.length)).toNat = 2 + vals.length := toNat_ofNat8_lt (by omega)
+  have e4 := u32s_flatMap_le vals [] hv
+  simp only [List.append_nil] at e4
+  have e5 := flatMap_le4_length vals
+  simp only [readOnceResp, List.cons_append, List.nil_append, List.append_assoc, parseCmdResponse, k, e3]
+  have c1 : ¬ (le 4 st ++ (le 4 (4 * vals.length) ++ List.flatMap (le 4) vals)).length < 4 := by simp
+  have c2 : ¬ ((le 4 st ++ (le 4 (4 * vals.length) ++ List.flatMap (le 4) vals)).length < 4 * (2 + vals.length)
+      ∨ 2 + vals.length < 2) := by
+    simp only [List.length_append, le_length, e5]; omega
+  rw [if_neg c1]
+  simp only [if_neg c2, take_le_append, drop_le_append, drop8_le_le, a, b, e4, Nat.add_sub_cancel_left]
+  rw [if_pos (by omega), ← e5, List.take_length]
+  rfl
 
 /-- a command answered by a single response, either transport -/
 theorem processCmd_single {h1 h0 : Host} {st d} (hI : h1.Is h0 st d [] []) (hop : h0.opened = true)
@@ -547,6 +700,9 @@ theorem simpleCmd_single {h1 h0 : Host} {st d} (hI : h1.Is h0 st d [] []) (hop :
 
 /-! ### assembling the operations -/
 
+theorem next_eq (d : Dev) (h : d.phase = .idle) : d.next = { d with ncmd := d.ncmd + 1, pktCount := 0 } := by
+  cases d; simp_all [Dev.next]
+
 theorem Synced.is {h : Host} {d : Dev} (hs : Synced h d) : h.Is h h.status d [] [] :=
   ⟨rfl, rfl, rfl, rfl, rfl, rfl, hs.peer, hs.rxB, hs.rxR⟩
 
@@ -579,7 +735,7 @@ theorem wf_mk (tag fl : Nat) (ps : List Nat) (h1 : tag < 256) (h2 : fl < 256) (h
 
 theorem refines_fillMemory (h : Host) (d d' : Dev) (a n pat : Nat) (res : Except HErr Val) (st : Nat)
     (hs : Synced h d) (hd : d.OK) (heda : h.eda = false)
-    (hargs : (Op.fillMemory a n pat).argsOK) (hspec : specOp h.cfg.cmdExc d (.fillMemory a n pat) = some (d', res, st)) :
+    (hargs : (Op.fillMemory a n pat).argsOK) (hspec : specOp h.cfg.cmdExc h.cfg.usb d (.fillMemory a n pat) = some (d', res, st)) :
     Refines h (.fillMemory a n pat) d' res st := by
   obtain ⟨ha, hn, hp⟩ := hargs
   have hwf : (⟨Spec.cFillMemory, 0, [a, n, pat]⟩ : CmdPkt).WF :=
@@ -599,7 +755,7 @@ theorem refines_fillMemory (h : Host) (d d' : Dev) (a n pat : Nat) (res : Except
 
 theorem refines_eraseRegion (h : Host) (d d' : Dev) (a n m : Nat) (res : Except HErr Val) (st : Nat)
     (hs : Synced h d) (hd : d.OK) (heda : h.eda = false)
-    (hargs : (Op.eraseRegion a n m).argsOK) (hspec : specOp h.cfg.cmdExc d (.eraseRegion a n m) = some (d', res, st)) :
+    (hargs : (Op.eraseRegion a n m).argsOK) (hspec : specOp h.cfg.cmdExc h.cfg.usb d (.eraseRegion a n m) = some (d', res, st)) :
     Refines h (.eraseRegion a n m) d' res st := by
   obtain ⟨ha, hn, hm⟩ := hargs
   have hm' := clampMemId_lt hm
@@ -620,7 +776,7 @@ theorem refines_eraseRegion (h : Host) (d d' : Dev) (a n m : Nat) (res : Except 
 
 theorem refines_eraseAll (h : Host) (d d' : Dev) (m : Nat) (res : Except HErr Val) (st : Nat)
     (hs : Synced h d) (hd : d.OK) (heda : h.eda = false)
-    (hargs : (Op.eraseAll m).argsOK) (hspec : specOp h.cfg.cmdExc d (.eraseAll m) = some (d', res, st)) :
+    (hargs : (Op.eraseAll m).argsOK) (hspec : specOp h.cfg.cmdExc h.cfg.usb d (.eraseAll m) = some (d', res, st)) :
     Refines h (.eraseAll m) d' res st := by
   have hm : m < 4294967296 := hargs
   have hwf : (⟨Spec.cFlashEraseAll, 0, [m]⟩ : CmdPkt).WF :=
@@ -634,7 +790,7 @@ theorem refines_eraseAll (h : Host) (d d' : Dev) (m : Nat) (res : Except HErr Va
 
 theorem refines_setProperty (h : Host) (d d' : Dev) (t v : Nat) (res : Except HErr Val) (st : Nat)
     (hs : Synced h d) (hd : d.OK) (heda : h.eda = false)
-    (hargs : (Op.setProperty t v).argsOK) (hspec : specOp h.cfg.cmdExc d (.setProperty t v) = some (d', res, st)) :
+    (hargs : (Op.setProperty t v).argsOK) (hspec : specOp h.cfg.cmdExc h.cfg.usb d (.setProperty t v) = some (d', res, st)) :
     Refines h (.setProperty t v) d' res st := by
   obtain ⟨ht, hv⟩ := hargs
   have hwf : (⟨Spec.cSetProperty, 0, [t, v]⟩ : CmdPkt).WF :=
@@ -701,7 +857,7 @@ theorem getProperty_single {h1 h0 : Host} {st d} (hI : h1.Is h0 st d [] []) (hop
 
 theorem refines_getProperty (h : Host) (d d' : Dev) (t i : Nat) (res : Except HErr Val) (st : Nat)
     (hs : Synced h d) (hd : d.OK) (heda : h.eda = false)
-    (hargs : (Op.getProperty t i).argsOK) (hspec : specOp h.cfg.cmdExc d (.getProperty t i) = some (d', res, st)) :
+    (hargs : (Op.getProperty t i).argsOK) (hspec : specOp h.cfg.cmdExc h.cfg.usb d (.getProperty t i) = some (d', res, st)) :
     Refines h (.getProperty t i) d' res st := by
   obtain ⟨ht, hi⟩ := hargs
   have hwf : (⟨Spec.cGetProperty, 0, [t, i]⟩ : CmdPkt).WF :=
@@ -732,32 +888,38 @@ theorem refines_getProperty (h : Host) (d d' : Dev) (t i : Nat) (res : Except HE
 
 /-! ### host→device data phase, device side -/
 
-/-- what the device keeps of an accepted data packet -/
-def Dev.store (d : Dev) (tag a : Nat) (c : Bytes) : Dev :=
-  if tag = Spec.cWriteMemory then { d with mem := splice d.mem a c } else { d with sb := d.sb ++ c }
+/-- what the device keeps of `k` accepted data packets with the bytes `c` (written at `a` / appended) -/
+def Dev.store (d : Dev) (tag a : Nat) (c : Bytes) (k : Nat) : Dev :=
+  if tag = Spec.cWriteMemory then { d with pktCount := d.pktCount + k, mem := splice d.mem a c }
+  else if tag = Spec.cKeyProvisioning then { d with pktCount := d.pktCount + k, kpBuf := d.kpBuf ++ c }
+  else { d with pktCount := d.pktCount + k, sb := d.sb ++ c }
+
+/-- the device after the whole data `l` (in `k` packets) of a data phase starting at `a` -/
+def Dev.afterData (d : Dev) (tag a : Nat) (l : Bytes) (k : Nat) : Dev :=
+  { (d.store tag a l k).finishData tag with phase := .idle }
 
 /-- device-level run of a host→device data phase: every packet but the last is accepted silently,
     the last one ends the phase with the final response `fin` -/
 inductive Feeds : Dev → List Bytes → Dev → Bytes → Prop
   | last (d : Dev) (c : Bytes) (d' : Dev) (fin : Bytes) :
-      d.acceptData c = some (d', some fin) → Feeds d [c] d' fin
+      d.abortsNow = false → d.acceptData c = some (d', some fin) → Feeds d [c] d' fin
   | more (d : Dev) (c : Bytes) (cs : List Bytes) (d1 d' : Dev) (fin : Bytes) :
-      d.acceptData c = some (d1, none) → Feeds d1 cs d' fin → Feeds d (c :: cs) d' fin
+      d.abortsNow = false → d.acceptData c = some (d1, none) → Feeds d1 cs d' fin → Feeds d (c :: cs) d' fin
 
 theorem acceptData_last (d : Dev) (tag a fs : Nat) (c : Bytes) (hph : d.phase = .recv tag a c.length fs)
     (hc0 : c ≠ []) (hc : c.length ≤ d.maxPacket) :
-    d.acceptData c = some ({ d.store tag a c with phase := .idle }, some (genericResp fs tag)) := by
+    d.acceptData c = some (d.afterData tag a c 1, some (genericResp fs tag)) := by
   have h1 : ¬ (c.isEmpty = true ∨ d.maxPacket < c.length ∨ c.length < c.length) := by
     simp [hc0]; omega
   cases d
   simp only at hph
   subst hph
-  simp only [Dev.acceptData, h1, if_false, if_true, Dev.store]
+  simp only [Dev.acceptData, h1, if_false, if_true, Dev.store, Dev.afterData]
 
 theorem acceptData_more (d : Dev) (tag a rem fs : Nat) (c : Bytes) (hph : d.phase = .recv tag a rem fs)
     (hc0 : c ≠ []) (hc : c.length ≤ d.maxPacket) (hrem : c.length < rem) :
     d.acceptData c =
-      some ({ d.store tag a c with phase := .recv tag (a + c.length) (rem - c.length) fs }, none) := by
+      some ({ d.store tag a c 1 with phase := .recv tag (a + c.length) (rem - c.length) fs }, none) := by
   have h1 : ¬ (c.isEmpty = true ∨ d.maxPacket < c.length ∨ rem < c.length) := by
     simp [hc0]; omega
   have h2 : ¬ rem = c.length := by omega
@@ -784,16 +946,45 @@ theorem splice_splice (mem : Bytes) (a : Nat) (x y : Bytes) (h : a ≤ mem.lengt
   simp
 
 /-- the device after the whole data `l` of a data phase starting at `a` -/
-def Dev.afterData (d : Dev) (tag a : Nat) (l : Bytes) : Dev := { d.store tag a l with phase := .idle }
+
+theorem afterData_step (d : Dev) (tag a : Nat) (c l : Bytes) (k : Nat) (ph : Phase)
+    (hmem : tag = Spec.cWriteMemory → a ≤ d.mem.length) :
+    Dev.afterData { d.store tag a c 1 with phase := ph } tag (a + c.length) l k = d.afterData tag a (c ++ l) (1 + k) := by
+  simp only [Dev.afterData, Dev.store]
+  by_cases ht : tag = Spec.cWriteMemory
+  · have := hmem ht
+    simp only [ht, if_true]
+    rw [splice_splice _ _ _ _ this]
+    simp only [Dev.finishData, if_neg (show ¬ Spec.cWriteMemory = Spec.cKeyProvisioning by decide), Nat.add_assoc]
+  · simp only [ht, if_false]
+    by_cases hk : tag = Spec.cKeyProvisioning
+    · simp only [hk, if_true, Dev.finishData, List.append_assoc, Nat.add_assoc]
+      split <;> rfl
+    · simp only [hk, if_false, Dev.finishData, List.append_assoc, Nat.add_assoc]
+
+theorem store_abortAfter (d : Dev) (tag a : Nat) (c : Bytes) (k : Nat) :
+    (d.store tag a c k).abortAfter = d.abortAfter := by
+  simp only [Dev.store]
+  split
+  · rfl
+  · split <;> rfl
+
+theorem store_maxPacket (d : Dev) (tag a : Nat) (c : Bytes) (k : Nat) :
+    (d.store tag a c k).maxPacket = d.maxPacket := by
+  simp only [Dev.store]
+  split
+  · rfl
+  · split <;> rfl
 
 theorem feeds_split (mp : Nat) (hmp : 0 < mp) (tag fs : Nat) :
-    ∀ (n : Nat) (l : Bytes) (d : Dev) (a : Nat), l.length = n → l ≠ [] → d.maxPacket = mp →
+    ∀ (n : Nat) (l : Bytes) (d : Dev) (a : Nat), l.length = n → l ≠ [] → d.maxPacket = mp → d.abortAfter = none →
       d.phase = .recv tag a l.length fs → (tag = Spec.cWriteMemory → a + l.length ≤ d.mem.length) →
-      Feeds d (split mp l) (d.afterData tag a l) (genericResp fs tag) := by
+      Feeds d (split mp l) (d.afterData tag a l (split mp l).length) (genericResp fs tag) := by
   intro n
   induction n using Nat.strongRecOn with
   | _ n ih =>
-    intro l d a hn hl hdmp hph hmem
+    intro l d a hn hl hdmp hnoab hph hmem
+    have hab := abortsNow_false d hnoab
     rw [split_cons mp hmp l hl]
     have hpos : 0 < l.length := List.length_pos_iff.mpr hl
     have hc0 : l.take mp ≠ [] := by
@@ -805,31 +996,27 @@ theorem feeds_split (mp : Nat) (hmp : 0 < mp) (tag fs : Nat) :
     · have e1 : l.take mp = l := List.take_of_length_le hle
       have e2 : l.drop mp = [] := List.drop_of_length_le hle
       rw [e1, e2, split_nil]
-      exact Feeds.last d l _ _ (acceptData_last d tag a fs l hph hl (by rw [hdmp]; exact hle))
+      exact Feeds.last d l _ _ hab (acceptData_last d tag a fs l hph hl (by rw [hdmp]; exact hle))
     · have hlen : (l.take mp).length = mp := by simp; omega
       have hdl : (l.drop mp).length = l.length - mp := by simp
       have hd0 : l.drop mp ≠ [] := by
         intro e; have := congrArg List.length e; rw [List.length_drop] at this; simp at this; omega
       have hacc := acceptData_more d tag a l.length fs (l.take mp) hph hc0 (by omega) (by omega)
-      refine Feeds.more d _ _ _ _ _ hacc ?_
+      refine Feeds.more d _ _ _ _ _ hab hacc ?_
       have hrec := ih (l.drop mp).length (by omega) (l.drop mp)
-        { d.store tag a (l.take mp) with phase := .recv tag (a + (l.take mp).length) (l.length - (l.take mp).length) fs }
-        (a + (l.take mp).length) rfl hd0 (by simp only [Dev.store]; split <;> exact hdmp)
+        { d.store tag a (l.take mp) 1 with phase := .recv tag (a + (l.take mp).length) (l.length - (l.take mp).length) fs }
+        (a + (l.take mp).length) rfl hd0 (by rw [← hdmp]; exact store_maxPacket d tag a _ 1)
+        (by rw [← hnoab]; exact store_abortAfter d tag a _ 1)
         (by simp only [hlen, hdl]) (by
           intro ht
           have := hmem ht
           simp only [Dev.store, ht, if_true, hlen, hdl]
           rw [splice_length _ _ _ (by omega)]
           omega)
-      have hfin : Dev.afterData { d.store tag a (l.take mp) with phase := .recv tag (a + (l.take mp).length) (l.length - (l.take mp).length) fs }
-          tag (a + (l.take mp).length) (l.drop mp) = d.afterData tag a l := by
-        simp only [Dev.afterData, Dev.store]
-        by_cases ht : tag = Spec.cWriteMemory
-        · have := hmem ht
-          simp only [ht, if_true]
-          rw [splice_splice _ _ _ _ (by omega), List.take_append_drop]
-        · simp only [ht, if_false, List.append_assoc, List.take_append_drop]
-      rw [hfin] at hrec
+      rw [afterData_step d tag a _ _ _ _ (fun ht => by have := hmem ht; omega), List.take_append_drop] at hrec
+      have hcnt : (l.take mp :: split mp (l.drop mp)).length = 1 + (split mp (l.drop mp)).length := by
+        simp; omega
+      rw [hcnt]
       exact hrec
 
 /-! ### host→device data phase, host side -/
@@ -852,27 +1039,26 @@ theorem sendChunks_cons_ok {ab : Bool} {c : Bytes} {cs : List Bytes} {sent : Nat
   rw [sendChunks]
   simp only [e]
 
+
 theorem sendChunks_serial {h0 : Host} (htr : h0.cfg.tr = .serial) (ab : Bool) {d : Dev} {cs : List Bytes} {d' : Dev}
     {fin : Bytes} (hF : Feeds d cs d' fin) :
     ∀ (h1 : Host) (sent st : Nat), (∀ c ∈ cs, c.length < 65536) → h1.Is h0 st d [] [] →
       ∃ h2, sendChunks ab cs sent h1 = (.ok (sent + (cs.map List.length).sum, none), h2) ∧
         h2.Is h0 st d' (mkFrame Spec.fCmd fin) [] := by
   induction hF with
-  | last d c d' fin hacc =>
+  | last d c d' fin hab hacc =>
     intro h1 sent st hlen hI
     have hc := hlen c (by simp)
-    have hstep := stepSerial_data d c hc
-    rw [hacc] at hstep
+    have hstep := stepSerial_data_acc d c hc hab _ _ hacc
     obtain ⟨h2, e2, hI2⟩ := writeData_serial hI htr ab c hc d' _ hstep
     refine ⟨h2, ?_, hI2⟩
     rw [sendChunks_cons_ok e2]
     simp [sendChunks]
-  | more d c cs d1 d' fin hacc _ ih =>
+  | more d c cs d1 d' fin hab hacc _ ih =>
     intro h1 sent st hlen hI
     have hc := hlen c (by simp)
-    have hstep := stepSerial_data d c hc
-    rw [hacc] at hstep
-    obtain ⟨h2, e2, hI2⟩ := writeData_serial hI htr ab c hc d1 [] (by simpa using hstep)
+    have hstep := stepSerial_data_acc d c hc hab _ _ hacc
+    obtain ⟨h2, e2, hI2⟩ := writeData_serial hI htr ab c hc d1 [] hstep
     obtain ⟨h3, e3, hI3⟩ := ih h2 (sent + c.length) st (fun x hx => hlen x (by simp [hx])) hI2
     refine ⟨h3, ?_, hI3⟩
     rw [sendChunks_cons_ok e2, e3]
@@ -880,17 +1066,28 @@ theorem sendChunks_serial {h0 : Host} (htr : h0.cfg.tr = .serial) (ab : Bool) {d
 
 theorem writeData_hid {h1 h0 : Host} {st d} (hI : h1.Is h0 st d [] []) (htr : h0.cfg.tr = .hid)
     (ab : Bool) (c : Bytes) (hlen : c.length < 65536) :
-    writeData ab c h1 = (.ok (), h1.write (mkReport Spec.ridDataOut c)) := by
+    ∃ h2, writeData ab c h1 = (.ok (), h2) ∧
+      h2.Is h0 st (d.stepHid (mkReport Spec.ridDataOut c)).1 [] (d.stepHid (mkReport Spec.ridDataOut c)).2 := by
   have htr1 : h1.cfg.tr = .hid := by rw [hI.cfg, htr]
-  unfold writeData
-  rw [bind_ok (get_run _)]
-  simp only [htr1]
-  unfold hidWriteData
-  rw [if_neg (by omega)]
   cases ab
-  · rfl
-  · have e1 : hidDevRead h1 = (.error .timeout, h1) := by
-      unfold hidDevRead; rw [hI.rxR]
+  · refine ⟨h1.write (mkReport Spec.ridDataOut c), ?_, by simpa using hI.write_hid htr (mkReport Spec.ridDataOut c)⟩
+    unfold writeData
+    rw [bind_ok (get_run _)]
+    simp only [htr1]
+    unfold hidWriteData
+    rw [if_neg (by omega)]
+    rfl
+  · have hIg : ({ h1 with reads := h1.reads + 1 } : Host).Is h0 st d [] [] :=
+      ⟨hI.cfg, hI.mps, hI.eda, hI.opened, hI.fuelHint, hI.status, hI.peer, hI.rxB, hI.rxR⟩
+    refine ⟨({ h1 with reads := h1.reads + 1 } : Host).write (mkReport Spec.ridDataOut c), ?_,
+      by simpa using hIg.write_hid htr (mkReport Spec.ridDataOut c)⟩
+    have e1 : hidDevRead h1 = (.error .timeout, { h1 with reads := h1.reads + 1 }) := by
+      unfold hidDevRead; simp only [hI.rxR]
+    unfold writeData
+    rw [bind_ok (get_run _)]
+    simp only [htr1]
+    unfold hidWriteData
+    rw [if_neg (by omega)]
     simp only [if_true]
     rw [bind_ok (catch_err (bind_err e1))]
     rfl
@@ -901,26 +1098,24 @@ theorem sendChunks_hid {h0 : Host} (htr : h0.cfg.tr = .hid) (ab : Bool) {d : Dev
       ∃ h2 k, sendChunks ab cs sent h1 = (.ok (sent + (cs.map List.length).sum, none), h2) ∧
         h2.Is h0 st d' [] [padTo k (mkReport Spec.ridCmdIn fin)] := by
   induction hF with
-  | last d c d' fin hacc =>
+  | last d c d' fin hab hacc =>
     intro h1 sent st hlen hI
     have hc := hlen c (by simp)
-    have hstep := stepHid_data d c hc
-    rw [hacc] at hstep
-    have hI2 := hI.write_hid htr (mkReport Spec.ridDataOut c)
+    have hstep := stepHid_data_acc d c hc hab _ _ hacc
+    obtain ⟨h2, e2, hI2⟩ := writeData_hid hI htr ab c hc
     rw [hstep] at hI2
-    refine ⟨_, _, ?_, hI2⟩
-    rw [sendChunks_cons_ok (writeData_hid hI htr ab c hc)]
+    refine ⟨h2, _, ?_, hI2⟩
+    rw [sendChunks_cons_ok e2]
     simp [sendChunks]
-  | more d c cs d1 d' fin hacc _ ih =>
+  | more d c cs d1 d' fin hab hacc _ ih =>
     intro h1 sent st hlen hI
     have hc := hlen c (by simp)
-    have hstep := stepHid_data d c hc
-    rw [hacc] at hstep
-    have hI2 := hI.write_hid htr (mkReport Spec.ridDataOut c)
+    have hstep := stepHid_data_acc d c hc hab _ _ hacc
+    obtain ⟨h2, e2, hI2⟩ := writeData_hid hI htr ab c hc
     rw [hstep] at hI2
-    obtain ⟨h3, k, e3, hI3⟩ := ih _ (sent + c.length) st (fun x hx => hlen x (by simp [hx])) hI2
+    obtain ⟨h3, k, e3, hI3⟩ := ih h2 (sent + c.length) st (fun x hx => hlen x (by simp [hx])) hI2
     refine ⟨h3, k, ?_, hI3⟩
-    rw [sendChunks_cons_ok (writeData_hid hI htr ab c hc), e3]
+    rw [sendChunks_cons_ok e2, e3]
     simp [Nat.add_assoc]
 
 theorem sendData_ok {h1 h2 h3 : Host} (cs : List Bytes) (hop : h1.opened = true) (rr : Resp)
@@ -979,7 +1174,7 @@ theorem readAny_final {h2 h0 : Host} {st : Nat} {d' : Dev} {fin : Bytes} (hP : F
     obtain ⟨k, hP⟩ := hP
     have e3 := hidRead_ok h2 k Spec.ridCmdIn fin [] hP.rxR (by decide) hr0 hr
     rw [if_pos rfl, hparse] at e3
-    refine ⟨_, ?_, hP.setRxR []⟩
+    refine ⟨_, ?_, hP.rdR []⟩
     unfold readAny
     rw [bind_ok (get_run _)]
     have htr2 : h2.cfg.tr = .hid := by rw [hP.cfg, htr]
@@ -990,12 +1185,22 @@ theorem set_phase_idle (d : Dev) (h : d.phase = .idle) (ph : Phase) :
     { { d with phase := ph } with phase := .idle } = d := by
   cases d; simp_all
 
+theorem finishData_idle (d : Dev) (tag : Nat) (h : d.phase = .idle) :
+    { d.finishData tag with phase := .idle } = d.finishData tag := by
+  cases d
+  simp only at h
+  subst h
+  simp only [Dev.finishData]
+  split
+  · split <;> rfl
+  · rfl
+
 theorem processCmd_fromHost {h1 h0 : Host} {st d} (hI : h1.Is h0 st d [] []) (hop : h0.opened = true)
     (pkt : CmdPkt) (hwf : pkt.WF) (d1 : Dev) (resp : Bytes) (a n fs : Nat)
     (hexec : d.exec pkt = .fromHost d1 resp a n fs) (hid1 : d1.phase = .idle)
     (rr : Resp) (hparse : parseCmdResponse resp = .ok rr) (hr0 : resp ≠ []) (hr : resp.length < 65536) :
     ∃ h2, processCmd pkt h1 = (cmdResult h0.cfg.cmdExc rr, h2) ∧
-      if n = 0 then FinalPending h2 h0 rr.status d1 (genericResp fs pkt.tag)
+      if n = 0 then FinalPending h2 h0 rr.status { d1.finishData pkt.tag with phase := .idle } (genericResp fs pkt.tag)
       else h2.Is h0 rr.status { d1 with phase := .recv pkt.tag a n fs } [] [] := by
   unfold FinalPending
   cases htr : h0.cfg.tr with
@@ -1007,7 +1212,6 @@ theorem processCmd_fromHost {h1 h0 : Host} {st d} (hI : h1.Is h0 st d [] []) (ho
     by_cases hn : n = 0
     · rw [if_pos hn]
       rw [if_pos hn, stepSerial_ack] at hI2
-      simp only [set_phase_idle d1 hid1] at hI2
       exact hI2
     · rw [if_neg hn]
       rw [if_neg hn, stepSerial_ack] at hI2
@@ -1020,7 +1224,7 @@ theorem processCmd_fromHost {h1 h0 : Host} {st d} (hI : h1.Is h0 st d [] []) (ho
     · rw [if_pos hn] at hstep
       obtain ⟨h2, e2, hI2⟩ := processCmd_hid hI htr hop pkt hwf _ _ resp _ hstep rr hparse hr0 hr
       refine ⟨h2, e2, ?_⟩
-      rw [if_pos hn]
+      rw [if_pos hn, finishData_idle d1 pkt.tag hid1]
       exact ⟨_, hI2⟩
     · rw [if_neg hn] at hstep
       obtain ⟨h2, e2, hI2⟩ := processCmd_hid hI htr hop pkt hwf _ _ resp _ hstep rr hparse hr0 hr
@@ -1035,42 +1239,50 @@ theorem FinalPending.is {h1 h0 : Host} {st : Nat} {d : Dev} {fin : Bytes} (hP : 
   | serial => rw [htr] at hP; exact ⟨_, _, hP⟩
   | hid => rw [htr] at hP; obtain ⟨k, hP⟩ := hP; exact ⟨_, _, hP⟩
 
-theorem afterData_nil (d : Dev) (tag a : Nat) (h : d.phase = .idle) : d.afterData tag a [] = d := by
-  cases d
-  simp only at h
-  subst h
-  simp only [Dev.afterData, Dev.store, splice]
-  split <;> simp
 
-theorem afterData_phase (d : Dev) (tag a : Nat) (l : Bytes) (ph : Phase) :
-    Dev.afterData { d with phase := ph } tag a l = d.afterData tag a l := by
+theorem afterData_nil (d : Dev) (tag a : Nat) : d.afterData tag a [] 0 = { d.finishData tag with phase := .idle } := by
+  cases d
+  simp only [Dev.afterData, Dev.store, splice]
+  split
+  · simp
+  · split <;> simp
+
+theorem afterData_phase (d : Dev) (tag a : Nat) (l : Bytes) (k : Nat) (ph : Phase) :
+    Dev.afterData { d with phase := ph } tag a l k = d.afterData tag a l k := by
   simp only [Dev.afterData, Dev.store]
-  split <;> rfl
+  by_cases ht : tag = Spec.cWriteMemory
+  · simp only [ht, if_true, Dev.finishData, if_neg (show ¬ Spec.cWriteMemory = Spec.cKeyProvisioning by decide)]
+  · simp only [ht, if_false]
+    by_cases hk : tag = Spec.cKeyProvisioning
+    · simp only [hk, if_true, Dev.finishData]
+      split <;> rfl
+    · simp only [hk, if_false, Dev.finishData]
 
 theorem sendData_dataOut {h2 h0 : Host} (hop : h0.opened = true) (mp : Nat) (hmp : 0 < mp) (hmp2 : mp < 65536)
     (d1 : Dev) (tag a : Nat) (data : Bytes) (htag : tag < 4294967296)
-    (hmp1 : d1.maxPacket = mp) (hid1 : d1.phase = .idle)
+    (hmp1 : d1.maxPacket = mp) (hnoab : d1.abortAfter = none)
     (hmem : tag = Spec.cWriteMemory → a + data.length ≤ d1.mem.length)
-    (hmid : if data.length = 0 then FinalPending h2 h0 0 d1 (genericResp 0 tag)
+    (hmid : if data.length = 0 then FinalPending h2 h0 0 { d1.finishData tag with phase := .idle } (genericResp 0 tag)
             else h2.Is h0 0 { d1 with phase := .recv tag a data.length 0 } [] []) :
-    ∃ h3, sendData (split mp data) h2 = (.ok true, h3) ∧ h3.Is h0 0 (d1.afterData tag a data) [] [] := by
+    ∃ h3, sendData (split mp data) h2 = (.ok true, h3) ∧
+      h3.Is h0 0 (d1.afterData tag a data (split mp data).length) [] [] := by
   have hparse := genericResp_parse 0 tag (by omega) htag
   by_cases hn : data.length = 0
   · rw [if_pos hn] at hmid
     have hnil : data = [] := List.length_eq_zero_iff.mp hn
     subst hnil
     obtain ⟨b, r, hI2⟩ := hmid.is
-    obtain ⟨h3, e3, hI3⟩ := readAny_final hmid hid1 _ hparse (genericResp_ne_nil _ _)
+    obtain ⟨h3, e3, hI3⟩ := readAny_final hmid rfl _ hparse (genericResp_ne_nil _ _)
       (by rw [genericResp_length]; omega)
     refine ⟨{ h3 with status := 0 }, ?_, ?_⟩
     · rw [split_nil]
       exact sendData_ok [] (by rw [hI2.opened, hop]) _ rfl rfl e3
-    · rw [afterData_nil d1 tag a hid1]
+    · rw [split_nil, List.length_nil, afterData_nil d1 tag a]
       exact hI3.setStatus 0
   · rw [if_neg hn] at hmid
     have hne : data ≠ [] := fun e => hn (by rw [e]; rfl)
     have hF := feeds_split mp hmp tag 0 data.length data { d1 with phase := .recv tag a data.length 0 } a rfl hne
-      hmp1 rfl hmem
+      hmp1 hnoab rfl hmem
     rw [afterData_phase] at hF
     have hlen : ∀ c ∈ split mp data, c.length < 65536 := by
       intro c hc; have := (split_chunks' mp hmp data c hc).1; omega
@@ -1098,53 +1310,83 @@ theorem cmdResult_fail (ce : Bool) (r : Resp) (h : r.status ≠ 0) :
     cmdResult ce r = if ce then .error (.cmd r.status) else .ok r := by
   unfold cmdResult; cases ce <;> simp [h]
 
+/-- a command with a host→device data phase the device accepts (`dataOutCmd`, `write_memory`) -/
+theorem dataOutCmd_ok {h : Host} {d : Dev} (hs : Synced h d) (hd : d.OK) (hmps : h.mps = some d.maxPacket)
+    (tag : Nat) (params : List Nat) (data : Bytes) (hwf : (⟨tag, Spec.flagHasDataPhase, params⟩ : CmdPkt).WF)
+    (d1 : Dev) (a : Nat)
+    (hexec : d.exec ⟨tag, Spec.flagHasDataPhase, params⟩ = .fromHost d1 (genericResp 0 tag) a data.length 0)
+    (hid1 : d1.phase = .idle) (hmp1 : d1.maxPacket = d.maxPacket) (hnoab : d1.abortAfter = none)
+    (hmem : tag = Spec.cWriteMemory → a + data.length ≤ d1.mem.length) :
+    ∃ h3, dataOutCmd tag params data h = (.ok (.bool true), h3) ∧
+      h3.Is h 0 (d1.afterData tag a data (split d.maxPacket data).length) [] [] := by
+  have htag : tag < 4294967296 := by have := hwf.tag; simp at this; omega
+  have esplit := splitData_ok data h d.maxPacket hmps hd.mp_pos
+  obtain ⟨h2, e2, hmid⟩ := processCmd_fromHost hs.is hs.opened _ hwf _ _ _ _ _ hexec hid1 _
+    (genericResp_parse 0 tag (by omega) htag) (genericResp_ne_nil _ _)
+    (by rw [genericResp_length]; omega)
+  rw [cmdResult_ok _ _ rfl] at e2
+  obtain ⟨h3, e3, hI3⟩ := sendData_dataOut hs.opened d.maxPacket hd.mp_pos hd.mp_lt d1 tag a data
+    htag hmp1 hnoab hmem hmid
+  refine ⟨h3, ?_, hI3⟩
+  unfold dataOutCmd
+  rw [bind_ok esplit, bind_ok e2]
+  simp only [if_true]
+  rw [bind_ok e3]
+  rfl
+
+/-- a command with a host→device data phase the device refuses with status `s` -/
+theorem dataOutCmd_refused {h : Host} {d : Dev} (hs : Synced h d) (hd : d.OK) (hmps : h.mps = some d.maxPacket)
+    (tag : Nat) (params : List Nat) (data : Bytes) (hwf : (⟨tag, Spec.flagHasDataPhase, params⟩ : CmdPkt).WF)
+    (d1 : Dev) (s : Nat) (hs0 : s ≠ 0) (hs1 : s < 4294967296)
+    (hexec : d.exec ⟨tag, Spec.flagHasDataPhase, params⟩ = .single d1 (genericResp s tag))
+    (hid1 : d1.phase = .idle) :
+    ∃ h3, dataOutCmd tag params data h = (specFail h.cfg.cmdExc s (.bool false), h3) ∧ h3.Is h s d1 [] [] := by
+  have htag : tag < 4294967296 := by have := hwf.tag; simp at this; omega
+  have esplit := splitData_ok data h d.maxPacket hmps hd.mp_pos
+  obtain ⟨h2, e2, hI2⟩ := processCmd_single hs.is hs.opened _ hwf _ _ hexec hid1 _
+    (genericResp_parse s tag hs1 htag) (genericResp_ne_nil _ _) (by rw [genericResp_length]; omega)
+  rw [cmdResult_fail _ _ hs0] at e2
+  refine ⟨h2, ?_, hI2⟩
+  unfold dataOutCmd specFail
+  rw [bind_ok esplit]
+  cases hce : h.cfg.cmdExc <;> rw [hce] at e2
+  · rw [bind_ok e2]
+    simp [hs0]
+  · rw [bind_err e2]
+    rfl
+
+theorem afterData_write (d : Dev) (h : d.phase = .idle) (a : Nat) (data : Bytes) (k : Nat) :
+    d.next.afterData Spec.cWriteMemory a data k =
+      { d with ncmd := d.ncmd + 1, mem := splice d.mem a data, pktCount := k } := by
+  cases d
+  simp only at h
+  subst h
+  simp [Dev.afterData, Dev.store, Dev.next, Dev.finishData, Spec.cKeyProvisioning, Spec.cWriteMemory]
+
 theorem refines_writeMemory (h : Host) (d d' : Dev) (a : Nat) (data : Bytes) (m : Nat) (res : Except HErr Val) (st : Nat)
     (hs : Synced h d) (hd : d.OK) (hmps : h.mps = some d.maxPacket) (heda : h.eda = false)
     (hargs : (Op.writeMemory a data m).argsOK)
-    (hspec : specOp h.cfg.cmdExc d (.writeMemory a data m) = some (d', res, st)) :
+    (hspec : specOp h.cfg.cmdExc h.cfg.usb d (.writeMemory a data m) = some (d', res, st)) :
     Refines h (.writeMemory a data m) d' res st := by
   obtain ⟨ha, hn, hm⟩ := hargs
   have hm' := clampMemId_lt hm
   have hwf : (⟨Spec.cWriteMemory, Spec.flagHasDataPhase, [a, data.length, clampMemId m]⟩ : CmdPkt).WF :=
     wf_mk _ _ _ (by decide) (by decide) (by simp) (by intro v hv; simp at hv; rcases hv with rfl | rfl | rfl <;> assumption)
   have hex := exec_writeMemory d hd.nofault a data.length (clampMemId m)
-  have esplit := splitData_ok data h d.maxPacket hmps hd.mp_pos
+  have hrun : runOp (.writeMemory a data m) h =
+      dataOutCmd Spec.cWriteMemory [a, data.length, clampMemId m] data h := rfl
   simp only [specOp] at hspec
   split at hspec <;> rename_i hc <;> simp only [Option.some.injEq, Prod.mk.injEq] at hspec <;>
     obtain ⟨rfl, rfl, rfl⟩ := hspec
   · rw [if_pos hc] at hex
-    obtain ⟨h2, e2, hmid⟩ := processCmd_fromHost hs.is hs.opened _ hwf _ _ _ _ _ hex rfl _
-      (genericResp_parse 0 Spec.cWriteMemory (by omega) (by decide)) (genericResp_ne_nil _ _)
-      (by rw [genericResp_length]; omega)
-    rw [cmdResult_ok _ _ rfl] at e2
-    obtain ⟨h3, e3, hI3⟩ := sendData_dataOut hs.opened d.maxPacket hd.mp_pos hd.mp_lt d.next Spec.cWriteMemory a data
-      (by decide) rfl rfl (fun _ => hc) hmid
-    have hfin : d.next.afterData Spec.cWriteMemory a data = { d with ncmd := d.ncmd + 1, mem := splice d.mem a data } := by
-      have := hs.idle
-      cases d; simp_all [Dev.afterData, Dev.store, Dev.next]
-    rw [hfin] at hI3
-    refine Refines.mk' ?_ hI3 hs.opened hs.idle heda
-    show writeMemory a data m h = _
-    unfold writeMemory
-    rw [bind_ok esplit, bind_ok e2]
-    simp only [if_true]
-    rw [bind_ok e3]
-    rfl
+    obtain ⟨h3, e3, hI3⟩ := dataOutCmd_ok hs hd hmps _ _ data hwf d.next a hex rfl rfl hd.noabort (fun _ => hc)
+    rw [afterData_write d hs.idle] at hI3
+    exact Refines.mk' (hrun.trans e3) hI3 hs.opened hs.idle heda
   · rw [if_neg hc] at hex
-    obtain ⟨h2, e2, hI2⟩ := processCmd_single hs.is hs.opened _ hwf _ _ hex rfl _
-      (genericResp_parse Spec.stMemoryRangeInvalid Spec.cWriteMemory (by decide) (by decide)) (genericResp_ne_nil _ _)
-      (by rw [genericResp_length]; omega)
-    rw [cmdResult_fail _ _ (by decide)] at e2
-    rw [next_eq d hs.idle] at hI2
-    refine Refines.mk' ?_ hI2 hs.opened hs.idle heda
-    show writeMemory a data m h = _
-    unfold writeMemory specFail
-    rw [bind_ok esplit]
-    cases hce : h.cfg.cmdExc <;> rw [hce] at e2
-    · rw [bind_ok e2]
-      rfl
-    · rw [bind_err e2]
-      rfl
+    obtain ⟨h3, e3, hI3⟩ := dataOutCmd_refused hs hd hmps _ _ data hwf d.next Spec.stMemoryRangeInvalid (by decide)
+      (by decide) hex rfl
+    rw [next_eq d hs.idle] at hI3
+    exact Refines.mk' (hrun.trans e3) hI3 hs.opened hs.idle heda
 
 theorem Host.Is.setEda {h1 h0 : Host} {st d b r} (hI : h1.Is h0 st d b r) (c : Bool) :
     ({ h1 with eda := c } : Host).Is { h0 with eda := c } st d b r :=
@@ -1158,17 +1400,19 @@ theorem FinalPending.setEda {h1 h0 : Host} {st : Nat} {d : Dev} {fin : Bytes} (h
   | serial => rw [htr] at hP; exact hP.setEda c
   | hid => rw [htr] at hP; obtain ⟨k, hP⟩ := hP; exact ⟨k, hP.setEda c⟩
 
-theorem afterData_recvSb (d : Dev) (h : d.phase = .idle) (data : Bytes) :
-    Dev.afterData { d.next with sb := [] } Spec.cReceiveSbFile 0 data = { d with ncmd := d.ncmd + 1, sb := data } := by
+
+theorem afterData_recvSb (d : Dev) (h : d.phase = .idle) (data : Bytes) (k : Nat) :
+    Dev.afterData { d.next with sb := [] } Spec.cReceiveSbFile 0 data k =
+      { d with ncmd := d.ncmd + 1, sb := data, pktCount := k } := by
   cases d
   simp only at h
   subst h
-  simp [Dev.afterData, Dev.store, Dev.next, Spec.cReceiveSbFile, Spec.cWriteMemory]
+  simp [Dev.afterData, Dev.store, Dev.next, Dev.finishData, Spec.cReceiveSbFile, Spec.cWriteMemory, Spec.cKeyProvisioning]
 
 theorem refines_receiveSbFile (h : Host) (d d' : Dev) (data : Bytes) (c : Bool) (res : Except HErr Val) (st : Nat)
     (hs : Synced h d) (hd : d.OK) (hmps : h.mps = some d.maxPacket) (heda : h.eda = false)
     (hargs : (Op.receiveSbFile data c).argsOK)
-    (hspec : specOp h.cfg.cmdExc d (.receiveSbFile data c) = some (d', res, st)) :
+    (hspec : specOp h.cfg.cmdExc h.cfg.usb d (.receiveSbFile data c) = some (d', res, st)) :
     Refines h (.receiveSbFile data c) d' res st := by
   have hn : data.length < 4294967296 := hargs
   have hwf : (⟨Spec.cReceiveSbFile, Spec.flagHasDataPhase, [data.length]⟩ : CmdPkt).WF :=
@@ -1182,16 +1426,18 @@ theorem refines_receiveSbFile (h : Host) (d d' : Dev) (data : Bytes) (c : Bool) 
     (by rw [genericResp_length]; omega)
   rw [cmdResult_ok _ _ rfl] at e2
   have hmid' : if data.length = 0 then
-        FinalPending { h2 with eda := c } { h with eda := c } 0 { d.next with sb := [] } (genericResp 0 Spec.cReceiveSbFile)
+        FinalPending { h2 with eda := c } { h with eda := c } 0
+          { Dev.finishData { d.next with sb := [] } Spec.cReceiveSbFile with phase := .idle } (genericResp 0 Spec.cReceiveSbFile)
       else ({ h2 with eda := c } : Host).Is { h with eda := c } 0
         { ({ d.next with sb := [] } : Dev) with phase := .recv Spec.cReceiveSbFile 0 data.length 0 } [] [] := by
     split <;> rename_i hc
     · rw [if_pos hc] at hmid; exact hmid.setEda c
     · rw [if_neg hc] at hmid; exact hmid.setEda c
   obtain ⟨h3, e3, hI3⟩ := sendData_dataOut (h0 := { h with eda := c }) hs.opened d.maxPacket hd.mp_pos hd.mp_lt
-    { d.next with sb := [] } Spec.cReceiveSbFile 0 data (by decide) rfl rfl (fun e => absurd e (by decide)) hmid'
+    { d.next with sb := [] } Spec.cReceiveSbFile 0 data (by decide) rfl hd.noabort (fun e => absurd e (by decide)) hmid'
   rw [afterData_recvSb d hs.idle] at hI3
-  have hI4 : ({ h3 with eda := false } : Host).Is h 0 { d with ncmd := d.ncmd + 1, sb := data } [] [] :=
+  have hI4 : ({ h3 with eda := false } : Host).Is h 0
+      { d with ncmd := d.ncmd + 1, sb := data, pktCount := (split d.maxPacket data).length } [] [] :=
     ⟨hI3.cfg, hI3.mps, heda.symm, hI3.opened, hI3.fuelHint, hI3.status, hI3.peer, hI3.rxB, hI3.rxR⟩
   refine Refines.mk' ?_ hI4 hs.opened hs.idle heda
   show receiveSbFile data c h = _
@@ -1284,7 +1530,7 @@ theorem readDataLoop_hid {h0 : Host} (htr : h0.cfg.tr = .hid) (tag : Nat) (htag 
       (by rw [genericResp_length]; omega)
     rw [if_pos rfl, genericResp_parse 0 tag (by omega) htag] at e2
     rw [← readAny_hid h1 (by rw [hI.cfg, htr])] at e2
-    refine ⟨_, ?_, (hI.setRxR []).setStatus 0⟩
+    refine ⟨_, ?_, (hI.rdR []).setStatus 0⟩
     rw [readDataLoop_final e2 rfl rfl]
     simp
   | cons c cs ih =>
@@ -1297,7 +1543,7 @@ theorem readDataLoop_hid {h0 : Host} (htr : h0.cfg.tr = .hid) (tag : Nat) (htag 
     have e2 := hidRead_ok h1 k Spec.ridDataIn c _ hrx (by decide) hc.1 hc.2
     rw [if_neg (by decide)] at e2
     rw [← readAny_hid h1 (by rw [hI.cfg, htr])] at e2
-    obtain ⟨h3, e3, hI3⟩ := ih _ (acc ++ c) f st (fun x hx => hL x (by simp [hx])) (hI.setRxR _)
+    obtain ⟨h3, e3, hI3⟩ := ih _ (acc ++ c) f st (fun x hx => hL x (by simp [hx])) (hI.rdR _)
       (by simp at hfuel; omega)
     refine ⟨h3, ?_, hI3⟩
     rw [readDataLoop_data e2, e3]
@@ -1384,96 +1630,803 @@ theorem readData_ok {h1 h2 : Host} (tag n : Nat) (data : Bytes) (hop : h1.opened
   rw [← hlen, List.take_length]
   rfl
 
-theorem refines_readMemory (h : Host) (d d' : Dev) (a n m : Nat) (fast : Bool) (res : Except HErr Val) (st : Nat)
-    (husb : h.cfg.usb = false) (hs : Synced h d) (hd : d.OK) (heda : h.eda = false)
-    (hargs : (Op.readMemory a n m fast).argsOK)
-    (hspec : specOp h.cfg.cmdExc d (.readMemory a n m fast) = some (d', res, st)) :
-    Refines h (.readMemory a n m fast) d' res st := by
-  obtain ⟨ha, hn, hm⟩ := hargs
-  have hm' := clampMemId_lt hm
-  have hwf : (⟨Spec.cReadMemory, 0, [a, n, clampMemId m]⟩ : CmdPkt).WF :=
+
+/-- a command with a device→host data phase followed by `_read_data`, from any in-step state -/
+theorem cmd_readData {h1 h0 : Host} {st d} (hI : h1.Is h0 st d [] []) (hop : h0.opened = true)
+    (pkt : CmdPkt) (hwf : pkt.WF) (d1 : Dev) (resp data : Bytes)
+    (hexec : d.exec pkt = .toHost d1 resp data 0) (hid1 : d1.phase = .idle)
+    (hmp : 0 < d1.maxPacket) (hmp2 : d1.maxPacket < 65536)
+    (rr : Resp) (hparse : parseCmdResponse resp = .ok rr) (hr0 : resp ≠ []) (hr : resp.length < 65536)
+    (hst : rr.status = 0) :
+    ∃ h2, processCmd pkt h1 = (.ok rr, h2) ∧
+      ∃ h3, readData pkt.tag data.length h2 = (.ok data, h3) ∧ h3.Is h0 0 d1 [] [] := by
+  have htag : pkt.tag < 4294967296 := by have := hwf.tag; omega
+  obtain ⟨h2, e2, hP2⟩ := processCmd_toHost hI hop pkt hwf d1 resp data hexec rr hparse hr0 hr
+  rw [cmdResult_ok _ _ hst] at e2
+  refine ⟨h2, e2, ?_⟩
+  have hL : ∀ c ∈ split d1.maxPacket data, c ≠ [] ∧ c.length < 65536 := by
+    intro c hc'
+    have h1 := split_chunks' d1.maxPacket hmp _ c hc'
+    exact ⟨h1.2, by omega⟩
+  have hfuel : (split d1.maxPacket data).length <
+      data.length + h2.fuelHint + h2.rxB.length + h2.rxR.length + 8 := by
+    have := split_length_le d1.maxPacket hmp data
+    omega
+  obtain ⟨h3, e3, hI3⟩ := readDataLoop_ok hP2 hid1 htag hL [] _ hfuel
+  rw [List.nil_append, split_flatten' _ hmp] at e3
+  obtain ⟨dx, bx, rx, hI2⟩ := hP2.is
+  exact ⟨h3, readData_ok pkt.tag data.length _ (by rw [hI2.opened, hop]) e3 hI3.status rfl, hI3⟩
+
+theorem dataInCmd_ok {h : Host} {d : Dev} (hs : Synced h d) (hd : d.OK)
+    (tag : Nat) (params : List Nat) (kind : RKind) (hwf : (⟨tag, 0, params⟩ : CmdPkt).WF)
+    (d1 : Dev) (resp data : Bytes)
+    (hexec : d.exec ⟨tag, 0, params⟩ = .toHost d1 resp data 0) (hid1 : d1.phase = .idle)
+    (hmp1 : d1.maxPacket = d.maxPacket)
+    (rr : Resp) (hparse : parseCmdResponse resp = .ok rr) (hr0 : resp ≠ []) (hr : resp.length < 65536)
+    (hst : rr.status = 0) (hkind : rr.kind = kind) (hlen : rr.length = data.length) :
+    ∃ h3, dataInCmd tag params kind h = (.ok (.bytes data), h3) ∧ h3.Is h 0 d1 [] [] := by
+  obtain ⟨h2, e2, h3, e3, hI3⟩ := cmd_readData hs.is hs.opened _ hwf d1 resp data hexec hid1
+    (by rw [hmp1]; exact hd.mp_pos) (by rw [hmp1]; exact hd.mp_lt) rr hparse hr0 hr hst
+  refine ⟨h3, ?_, hI3⟩
+  unfold dataInCmd
+  rw [bind_ok e2]
+  simp only [hst, hkind, hlen, if_true]
+  rw [bind_ok e3]
+  rfl
+
+theorem dataInCmd_refused {h : Host} {d : Dev} (hs : Synced h d)
+    (tag : Nat) (params : List Nat) (kind : RKind) (hwf : (⟨tag, 0, params⟩ : CmdPkt).WF)
+    (d1 : Dev) (s : Nat) (hs0 : s ≠ 0) (hs1 : s < 4294967296)
+    (hexec : d.exec ⟨tag, 0, params⟩ = .single d1 (genericResp s tag)) (hid1 : d1.phase = .idle) :
+    ∃ h3, dataInCmd tag params kind h = (specFail h.cfg.cmdExc s .none, h3) ∧ h3.Is h s d1 [] [] := by
+  have htag : tag < 4294967296 := by have := hwf.tag; simp at this; omega
+  obtain ⟨h2, e2, hI2⟩ := processCmd_single hs.is hs.opened _ hwf _ _ hexec hid1 _
+    (genericResp_parse s tag hs1 htag) (genericResp_ne_nil _ _) (by rw [genericResp_length]; omega)
+  rw [cmdResult_fail _ _ hs0] at e2
+  refine ⟨h2, ?_, hI2⟩
+  unfold dataInCmd specFail
+  cases hce : h.cfg.cmdExc <;> rw [hce] at e2
+  · rw [bind_ok e2]
+    simp [hs0]
+  · rw [bind_err e2]
+    rfl
+
+/-! ### the remaining operations -/
+
+theorem logged_eq (d : Dev) (h : d.phase = .idle) (tag : Nat) (ps : List Nat) :
+    { d.next with log := d.log ++ [(tag, ps)] } = d.logged tag ps := by
+  cases d; simp_all [Dev.next, Dev.logged]
+
+/-- commands the reference device only records -/
+theorem refines_logged (h : Host) (d : Dev) (op : Op) (tag : Nat) (ps : List Nat)
+    (hs : Synced h d) (heda : h.eda = false) (hwf : (⟨tag, 0, ps⟩ : CmdPkt).WF)
+    (hexec : d.exec ⟨tag, 0, ps⟩ = .single { d.next with log := d.log ++ [(tag, ps)] } (genericResp 0 tag))
+    (hrun : runOp op h = simpleCmd tag ps h) :
+    Refines h op (d.logged tag ps) (.ok (.bool true)) Spec.stSuccess := by
+  obtain ⟨h2, e2, hI2⟩ := simpleCmd_single hs.is hs.opened _ _ hwf _ 0 (by omega) hexec rfl
+  rw [logged_eq d hs.idle] at hI2
+  exact Refines.mk' (hrun.trans e2) hI2 hs.opened hs.idle heda
+
+theorem afterData_kpUser (d : Dev) (h : d.phase = .idle) (t : Nat) (data : Bytes) (k : Nat) :
+    Dev.afterData { d.next with kpTarget := (Spec.kpSetUserKey, t), kpBuf := [] } Spec.cKeyProvisioning 0 data k =
+      { d with ncmd := d.ncmd + 1, pktCount := k, kpTarget := (Spec.kpSetUserKey, t), kpBuf := data,
+               userKeys := (t, data) :: d.userKeys.filter (fun q => q.1 != t) } := by
+  cases d
+  simp only at h
+  subst h
+  simp [Dev.afterData, Dev.store, Dev.next, Dev.finishData, Spec.cWriteMemory, Spec.cKeyProvisioning,
+    Spec.kpSetUserKey, Spec.kpWriteKeyStore]
+
+theorem afterData_kpStore (d : Dev) (h : d.phase = .idle) (data : Bytes) (k : Nat) :
+    Dev.afterData { d.next with kpTarget := (Spec.kpWriteKeyStore, 0), kpBuf := [] } Spec.cKeyProvisioning 0 data k =
+      { d with ncmd := d.ncmd + 1, pktCount := k, kpTarget := (Spec.kpWriteKeyStore, 0), kpBuf := data,
+               keyStore := data } := by
+  cases d
+  simp only at h
+  subst h
+  simp [Dev.afterData, Dev.store, Dev.next, Dev.finishData, Spec.cWriteMemory, Spec.cKeyProvisioning,
+    Spec.kpWriteKeyStore]
+
+theorem refines_kpSetUserKey (h : Host) (d d' : Dev) (t : Nat) (data : Bytes) (res : Except HErr Val) (st : Nat)
+    (hs : Synced h d) (hd : d.OK) (hmps : h.mps = some d.maxPacket) (heda : h.eda = false)
+    (hargs : (Op.kpSetUserKey t data).argsOK)
+    (hspec : specOp h.cfg.cmdExc h.cfg.usb d (.kpSetUserKey t data) = some (d', res, st)) :
+    Refines h (.kpSetUserKey t data) d' res st := by
+  obtain ⟨ht, hn⟩ := hargs
+  have hwf : (⟨Spec.cKeyProvisioning, Spec.flagHasDataPhase, [Spec.kpSetUserKey, t, data.length]⟩ : CmdPkt).WF :=
+    wf_mk _ _ _ (by decide) (by decide) (by simp) (by intro v hv; simp at hv; rcases hv with rfl | rfl | rfl <;> first | assumption | decide)
+  have hex := exec_kpData d hd.nofault Spec.kpSetUserKey t data.length (Or.inl rfl)
+  simp only [specOp, Option.some.injEq, Prod.mk.injEq] at hspec
+  obtain ⟨rfl, rfl, rfl⟩ := hspec
+  obtain ⟨h3, e3, hI3⟩ := dataOutCmd_ok hs hd hmps _ _ data hwf _ 0 hex rfl rfl hd.noabort (fun e => absurd e (by decide))
+  rw [afterData_kpUser d hs.idle] at hI3
+  exact Refines.mk' e3 hI3 hs.opened hs.idle heda
+
+theorem refines_kpWriteKeyStore (h : Host) (d d' : Dev) (data : Bytes) (res : Except HErr Val) (st : Nat)
+    (hs : Synced h d) (hd : d.OK) (hmps : h.mps = some d.maxPacket) (heda : h.eda = false)
+    (hargs : (Op.kpWriteKeyStore data).argsOK)
+    (hspec : specOp h.cfg.cmdExc h.cfg.usb d (.kpWriteKeyStore data) = some (d', res, st)) :
+    Refines h (.kpWriteKeyStore data) d' res st := by
+  have hn : data.length < 4294967296 := hargs
+  have hwf : (⟨Spec.cKeyProvisioning, Spec.flagHasDataPhase, [Spec.kpWriteKeyStore, 0, data.length]⟩ : CmdPkt).WF :=
+    wf_mk _ _ _ (by decide) (by decide) (by simp) (by intro v hv; simp at hv; rcases hv with rfl | rfl | rfl <;> first | assumption | decide)
+  have hex := exec_kpData d hd.nofault Spec.kpWriteKeyStore 0 data.length (Or.inr rfl)
+  simp only [specOp, Option.some.injEq, Prod.mk.injEq] at hspec
+  obtain ⟨rfl, rfl, rfl⟩ := hspec
+  obtain ⟨h3, e3, hI3⟩ := dataOutCmd_ok hs hd hmps _ _ data hwf _ 0 hex rfl rfl hd.noabort (fun e => absurd e (by decide))
+  rw [afterData_kpStore d hs.idle] at hI3
+  exact Refines.mk' e3 hI3 hs.opened hs.idle heda
+
+theorem refines_kpReadKeyStore (h : Host) (d d' : Dev) (res : Except HErr Val) (st : Nat)
+    (hs : Synced h d) (hd : d.OK) (heda : h.eda = false)
+    (hspec : specOp h.cfg.cmdExc h.cfg.usb d .kpReadKeyStore = some (d', res, st)) :
+    Refines h .kpReadKeyStore d' res st := by
+  have hwf : (⟨Spec.cKeyProvisioning, 0, [Spec.kpReadKeyStore]⟩ : CmdPkt).WF :=
+    wf_mk _ _ _ (by decide) (by decide) (by simp) (by intro v hv; simp at hv; rcases hv with rfl; decide)
+  have hex := exec_kpReadKeyStore d hd.nofault
+  simp only [specOp, Option.some.injEq, Prod.mk.injEq] at hspec
+  obtain ⟨rfl, rfl, rfl⟩ := hspec
+  obtain ⟨h3, e3, hI3⟩ := dataInCmd_ok hs hd _ _ .keyProv hwf d.next _ _ hex rfl rfl _
+    (lenResp_parse_keyProv 0 d.keyStore.length (by omega) hd.keystore_lt) (lenResp_ne_nil _ _ _)
+    (by rw [lenResp_length]; omega) rfl rfl rfl
+  rw [next_eq d hs.idle] at hI3
+  exact Refines.mk' e3 hI3 hs.opened hs.idle heda
+
+theorem refines_flashReadResource (h : Host) (d d' : Dev) (a n o : Nat) (res : Except HErr Val) (st : Nat)
+    (hs : Synced h d) (hd : d.OK) (heda : h.eda = false)
+    (hargs : (Op.flashReadResource a n o).argsOK)
+    (hspec : specOp h.cfg.cmdExc h.cfg.usb d (.flashReadResource a n o) = some (d', res, st)) :
+    Refines h (.flashReadResource a n o) d' res st := by
+  obtain ⟨ha, hn, ho⟩ := hargs
+  have hwf : (⟨Spec.cFlashReadResource, 0, [a, n, o]⟩ : CmdPkt).WF :=
     wf_mk _ _ _ (by decide) (by decide) (by simp) (by intro v hv; simp at hv; rcases hv with rfl | rfl | rfl <;> assumption)
-  have hex := exec_readMemory d hd.nofault a n (clampMemId m)
-  have hnousb : ¬ (h.cfg.usb = true ∧ ¬ fast = true) := by simp [husb]
+  have hex := exec_flashReadResource d hd.nofault a n o
   simp only [specOp] at hspec
+  split at hspec <;> rename_i hmod
+  · simp at hspec
+  have hrun : runOp (.flashReadResource a n o) h =
+      dataInCmd Spec.cFlashReadResource [a, n, o] .flashReadResource h := by
+    show (if n % 4 ≠ 0 then fail .mboot else dataInCmd Spec.cFlashReadResource [a, n, o] .flashReadResource) h = _
+    rw [if_neg hmod]
   split at hspec <;> rename_i hc <;> simp only [Option.some.injEq, Prod.mk.injEq] at hspec <;>
     obtain ⟨rfl, rfl, rfl⟩ := hspec
   · rw [if_pos hc] at hex
-    obtain ⟨h2, e2, hP2⟩ := processCmd_toHost hs.is hs.opened _ hwf _ _ _ hex _
-      (readMemResp_parse 0 n (by omega) hn) (readMemResp_ne_nil _ _) (by rw [readMemResp_length]; omega)
-    rw [cmdResult_ok _ _ rfl] at e2
-    replace hP2 : DataInPending h2 h 0 d.next Spec.cReadMemory (split d.maxPacket ((d.mem.drop a).take n)) := hP2
-    have hdata : ((d.mem.drop a).take n).length = n := by
+    have hdata : ((d.resource.drop a).take n).length = n := by
       rw [List.length_take, List.length_drop]; omega
-    have hL : ∀ c ∈ split d.maxPacket ((d.mem.drop a).take n), c ≠ [] ∧ c.length < 65536 := by
-      intro c hc'
-      have h1 := split_chunks' d.maxPacket hd.mp_pos _ c hc'
-      have h2 := hd.mp_lt
-      exact ⟨h1.2, by omega⟩
-    have hfuel : (split d.maxPacket ((d.mem.drop a).take n)).length <
-        n + h2.fuelHint + h2.rxB.length + h2.rxR.length + 8 := by
-      have := split_length_le d.maxPacket hd.mp_pos ((d.mem.drop a).take n)
-      omega
-    obtain ⟨h3, e3, hI3⟩ := readDataLoop_ok (d1 := d.next) hP2 rfl (by decide) hL [] _ hfuel
-    rw [List.nil_append, split_flatten' _ hd.mp_pos] at e3
-    obtain ⟨dx, bx, rx, hI2⟩ := hP2.is
-    have e4 := readData_ok Spec.cReadMemory n _ (by rw [hI2.opened, hs.opened]) e3 hI3.status hdata
+    obtain ⟨h3, e3, hI3⟩ := dataInCmd_ok hs hd _ _ .flashReadResource hwf d.next _ _ hex rfl rfl _
+      (lenResp_parse_resource 0 n (by omega) hn) (lenResp_ne_nil _ _ _)
+      (by rw [lenResp_length]; omega) rfl rfl hdata.symm
     rw [next_eq d hs.idle] at hI3
-    refine Refines.mk' ?_ hI3 hs.opened hs.idle heda
-    show readMemory a n m fast h = _
-    unfold readMemory
-    rw [bind_ok (get_run _), if_neg hnousb, bind_ok e2]
-    simp only [if_true]
-    rw [bind_ok e4]
-    rfl
+    exact Refines.mk' (hrun.trans e3) hI3 hs.opened hs.idle heda
   · rw [if_neg hc] at hex
-    obtain ⟨h2, e2, hI2⟩ := processCmd_single hs.is hs.opened _ hwf _ _ hex rfl _
-      (genericResp_parse Spec.stMemoryRangeInvalid Spec.cReadMemory (by decide) (by decide)) (genericResp_ne_nil _ _)
-      (by rw [genericResp_length]; omega)
-    rw [cmdResult_fail _ _ (by decide)] at e2
+    obtain ⟨h3, e3, hI3⟩ := dataInCmd_refused hs _ _ .flashReadResource hwf d.next Spec.stMemoryRangeInvalid
+      (by decide) (by decide) hex rfl
+    rw [next_eq d hs.idle] at hI3
+    exact Refines.mk' (hrun.trans e3) hI3 hs.opened hs.idle heda
+
+/-! ### program-once words -/
+
+theorem fuse_lt (fuses : List (Nat × Nat)) (hf : ∀ q ∈ fuses, q.2 < 4294967296) (i : Nat) :
+    (fuses.lookup i).getD 0 < 4294967296 := by
+  cases hl : fuses.lookup i with
+  | none => simp
+  | some v => exact hf _ (lookup_mem hl)
+
+theorem programFuse_fuses_lt (d : Dev) (i v : Nat) (hf : ∀ q ∈ d.fuses, q.2 < 4294967296) (hv : v < 4294967296) :
+    ∀ q ∈ (d.programFuse i v).fuses, q.2 < 4294967296 := by
+  unfold Dev.programFuse
+  split
+  · exact hf
+  · intro q hq
+    simp only [List.mem_cons, List.mem_filter] at hq
+    rcases hq with rfl | ⟨hq, -⟩
+    · exact Nat.or_lt_two_pow (n := 32) (fuse_lt d.fuses hf i) hv
+    · exact hf q hq
+
+theorem programFuse_next (d : Dev) (i v : Nat) (h : d.phase = .idle) :
+    d.next.programFuse i v = { d.programFuse i v with ncmd := d.ncmd + 1, pktCount := 0 } := by
+  have hn := next_eq d h
+  unfold Dev.programFuse
+  have hlk : d.next.lockedFuses = d.lockedFuses := rfl
+  rw [hlk]
+  by_cases hl : d.lockedFuses.contains i = true
+  · simp only [if_pos hl]; exact hn
+  · simp only [if_neg hl]
+    rw [hn]
+
+theorem programFuse_phase (d : Dev) (i v : Nat) : (d.programFuse i v).phase = d.phase := by
+  unfold Dev.programFuse; split <;> rfl
+theorem programFuse_faults (d : Dev) (i v : Nat) : (d.programFuse i v).faults = d.faults := by
+  unfold Dev.programFuse; split <;> rfl
+theorem programFuse_ncmd (d : Dev) (i v : Nat) : (d.programFuse i v).ncmd = d.ncmd := by
+  unfold Dev.programFuse; split <;> rfl
+
+/-- `efuse_read_once` from any in-step state -/
+theorem efuseReadOnce_ok {h1 h0 : Host} {st d} (hI : h1.Is h0 st d [] []) (hop : h0.opened = true)
+    (i : Nat) (hi : i < 4294967296) (hf : d.faults = []) (hfl : ∀ q ∈ d.fuses, q.2 < 4294967296) :
+    ∃ h2, efuseReadOnce i h1 = (.ok (some ((d.fuses.lookup i).getD 0)), h2) ∧ h2.Is h0 0 d.next [] [] := by
+  have hwf : (⟨Spec.cFlashReadOnce, 0, [i, 4]⟩ : CmdPkt).WF :=
+    wf_mk _ _ _ (by decide) (by decide) (by simp) (by intro v hv; simp at hv; rcases hv with rfl | rfl <;> omega)
+  have hv := fuse_lt d.fuses hfl i
+  obtain ⟨h2, e2, hI2⟩ := processCmd_single hI hop _ hwf _ _ (exec_flashReadOnce4 d hf i) rfl _
+    (readOnceResp_parse 0 [(d.fuses.lookup i).getD 0] (by omega) (by intro x hx; simp at hx; subst hx; exact hv)
+      (by simp) (by simp))
+    (readOnceResp_ne_nil _ _ _) (by rw [readOnceResp_length]; simp)
+  rw [cmdResult_ok _ _ rfl] at e2
+  refine ⟨h2, ?_, hI2⟩
+  unfold efuseReadOnce
+  rw [bind_ok e2]
+  rfl
+
+theorem refines_efuseReadOnce (h : Host) (d d' : Dev) (i : Nat) (res : Except HErr Val) (st : Nat)
+    (hs : Synced h d) (hd : d.OK) (heda : h.eda = false)
+    (hargs : (Op.efuseReadOnce i).argsOK)
+    (hspec : specOp h.cfg.cmdExc h.cfg.usb d (.efuseReadOnce i) = some (d', res, st)) :
+    Refines h (.efuseReadOnce i) d' res st := by
+  have hi : i < 4294967296 := hargs
+  simp only [specOp, Option.some.injEq, Prod.mk.injEq] at hspec
+  obtain ⟨rfl, rfl, rfl⟩ := hspec
+  obtain ⟨h2, e2, hI2⟩ := efuseReadOnce_ok hs.is hs.opened i hi hd.nofault hd.fuses_lt
+  rw [next_eq d hs.idle] at hI2
+  refine Refines.mk' ?_ hI2 hs.opened hs.idle heda
+  show (efuseReadOnce i >>= _) h = _
+  rw [bind_ok e2]
+  rfl
+
+theorem refines_flashReadOnce (h : Host) (d d' : Dev) (i c : Nat) (res : Except HErr Val) (st : Nat)
+    (hs : Synced h d) (hd : d.OK) (heda : h.eda = false)
+    (hargs : (Op.flashReadOnce i c).argsOK)
+    (hspec : specOp h.cfg.cmdExc h.cfg.usb d (.flashReadOnce i c) = some (d', res, st)) :
+    Refines h (.flashReadOnce i c) d' res st := by
+  have hi : i < 4294967296 := hargs
+  have hv := fuse_lt d.fuses hd.fuses_lt i
+  have hw := fuse_lt d.fuses hd.fuses_lt (i + 1)
+  simp only [specOp] at hspec
+  split at hspec <;> rename_i hc4
+  · subst hc4
+    simp only [Option.some.injEq, Prod.mk.injEq] at hspec
+    obtain ⟨rfl, rfl, rfl⟩ := hspec
+    have hwf : (⟨Spec.cFlashReadOnce, 0, [i, 4]⟩ : CmdPkt).WF :=
+      wf_mk _ _ _ (by decide) (by decide) (by simp) (by intro v hv; simp at hv; rcases hv with rfl | rfl <;> omega)
+    obtain ⟨h2, e2, hI2⟩ := processCmd_single hs.is hs.opened _ hwf _ _ (exec_flashReadOnce4 d hd.nofault i) rfl _
+      (readOnceResp_parse 0 [(d.fuses.lookup i).getD 0] (by omega) (by intro x hx; simp at hx; subst hx; exact hv)
+        (by simp) (by simp))
+      (readOnceResp_ne_nil _ _ _) (by rw [readOnceResp_length]; simp)
+    rw [cmdResult_ok _ _ rfl] at e2
     rw [next_eq d hs.idle] at hI2
     refine Refines.mk' ?_ hI2 hs.opened hs.idle heda
-    show readMemory a n m fast h = _
-    unfold readMemory specFail
-    rw [bind_ok (get_run _), if_neg hnousb]
-    cases hce : h.cfg.cmdExc <;> rw [hce] at e2
-    · rw [bind_ok e2]
+    show flashReadOnce i 4 h = _
+    unfold flashReadOnce
+    rw [if_neg (by simp), bind_ok e2]
+    simp
+  · split at hspec <;> rename_i hc8
+    · subst hc8
+      simp only [Option.some.injEq, Prod.mk.injEq] at hspec
+      obtain ⟨rfl, rfl, rfl⟩ := hspec
+      have hwf : (⟨Spec.cFlashReadOnce, 0, [i, 8]⟩ : CmdPkt).WF :=
+        wf_mk _ _ _ (by decide) (by decide) (by simp) (by intro v hv; simp at hv; rcases hv with rfl | rfl <;> omega)
+      obtain ⟨h2, e2, hI2⟩ := processCmd_single hs.is hs.opened _ hwf _ _ (exec_flashReadOnce8 d hd.nofault i) rfl _
+        (readOnceResp_parse 0 [(d.fuses.lookup i).getD 0, (d.fuses.lookup (i + 1)).getD 0] (by omega)
+          (by intro x hx; simp at hx; rcases hx with rfl | rfl <;> assumption) (by simp) (by simp))
+        (readOnceResp_ne_nil _ _ _) (by rw [readOnceResp_length]; simp)
+      rw [cmdResult_ok _ _ rfl] at e2
+      rw [next_eq d hs.idle] at hI2
+      refine Refines.mk' ?_ hI2 hs.opened hs.idle heda
+      show flashReadOnce i 8 h = _
+      unfold flashReadOnce
+      rw [if_neg (by simp), bind_ok e2]
+      simp
+    · simp at hspec
+
+theorem refines_flashProgramOnce (h : Host) (d d' : Dev) (i : Nat) (data : Bytes) (res : Except HErr Val) (st : Nat)
+    (hs : Synced h d) (hd : d.OK) (heda : h.eda = false)
+    (hargs : (Op.flashProgramOnce i data).argsOK)
+    (hspec : specOp h.cfg.cmdExc h.cfg.usb d (.flashProgramOnce i data) = some (d', res, st)) :
+    Refines h (.flashProgramOnce i data) d' res st := by
+  have hi : i < 4294967296 := hargs
+  simp only [specOp] at hspec
+  split at hspec
+  · rename_i a b c e
+    simp only [Option.some.injEq, Prod.mk.injEq] at hspec
+    obtain ⟨rfl, rfl, rfl⟩ := hspec
+    have hv : fromLe [a, b, c, e] < 4294967296 := by have := fromLe_lt [a, b, c, e]; simpa using this
+    have hwf : (⟨Spec.cFlashProgramOnce, 0, [i, 4, fromLe [a, b, c, e]]⟩ : CmdPkt).WF :=
+      wf_mk _ _ _ (by decide) (by decide) (by simp)
+        (by intro v hv'; simp only [List.mem_cons, List.not_mem_nil, or_false] at hv'; rcases hv' with rfl | rfl | rfl <;> omega)
+    obtain ⟨h2, e2, hI2⟩ := simpleCmd_single hs.is hs.opened _ _ hwf _ 0 (by omega)
+      (exec_flashProgramOnce4 d hd.nofault i _) (by rw [programFuse_phase]; rfl)
+    rw [programFuse_next d _ _ hs.idle] at hI2
+    refine Refines.mk' ?_ hI2 hs.opened (by show (d.programFuse _ _).phase = _; rw [programFuse_phase]; exact hs.idle) heda
+    show flashProgramOnce i [a, b, c, e] h = _
+    unfold flashProgramOnce
+    rw [if_neg (by simp)]
+    exact e2
+  · simp at hspec
+
+theorem refines_efuseProgramOnce (h : Host) (d d' : Dev) (i v : Nat) (verify : Bool) (res : Except HErr Val) (st : Nat)
+    (hs : Synced h d) (hd : d.OK) (heda : h.eda = false)
+    (hargs : (Op.efuseProgramOnce i v verify).argsOK)
+    (hspec : specOp h.cfg.cmdExc h.cfg.usb d (.efuseProgramOnce i v verify) = some (d', res, st)) :
+    Refines h (.efuseProgramOnce i v verify) d' res st := by
+  obtain ⟨hi, hv⟩ := hargs
+  have hwf : (⟨Spec.cFlashProgramOnce, 0, [i, 4, v]⟩ : CmdPkt).WF :=
+    wf_mk _ _ _ (by decide) (by decide) (by simp)
+      (by intro x hx; simp only [List.mem_cons, List.not_mem_nil, or_false] at hx; rcases hx with rfl | rfl | rfl <;> omega)
+  have hph1 : (d.next.programFuse i v).phase = .idle := by rw [programFuse_phase]; rfl
+  have hphd : (d.programFuse i v).phase = .idle := by rw [programFuse_phase]; exact hs.idle
+  obtain ⟨h2, e2, hI2⟩ := processCmd_single hs.is hs.opened _ hwf _ _ (exec_flashProgramOnce4 d hd.nofault i v) hph1 _
+    (genericResp_parse 0 Spec.cFlashProgramOnce (by omega) (by decide)) (genericResp_ne_nil _ _)
+    (by rw [genericResp_length]; omega)
+  rw [cmdResult_ok _ _ rfl] at e2
+  simp only [specOp] at hspec
+  cases verify with
+  | false =>
+    simp only [Bool.false_eq_true, if_false, Option.some.injEq, Prod.mk.injEq] at hspec
+    obtain ⟨rfl, rfl, rfl⟩ := hspec
+    rw [programFuse_next d _ _ hs.idle] at hI2
+    refine Refines.mk' ?_ hI2 hs.opened hphd heda
+    show efuseProgramOnce i v false h = _
+    unfold efuseProgramOnce
+    rw [bind_ok e2]
+    simp
+  | true =>
+    have hf1 : (d.next.programFuse i v).faults = [] := by rw [programFuse_faults]; exact hd.nofault
+    have hfl1 := programFuse_fuses_lt d.next i v hd.fuses_lt hv
+    obtain ⟨h3, e3, hI3⟩ := efuseReadOnce_ok hI2 hs.opened (i % 16777216) (by omega) hf1 hfl1
+    have hfin : (d.next.programFuse i v).next = { d.programFuse i v with ncmd := d.ncmd + 2, pktCount := 0 } := by
+      rw [programFuse_next d _ _ hs.idle]
+      have := hphd
+      generalize d.programFuse i v = e at this ⊢
+      cases e; simp_all [Dev.next]
+    have hfu : (d.next.programFuse i v).fuses = (d.programFuse i v).fuses := by
+      rw [programFuse_next d _ _ hs.idle]
+    rw [hfin] at hI3
+    rw [hfu] at e3
+    simp only [if_true] at hspec
+    split at hspec <;> rename_i hc <;> simp only [Option.some.injEq, Prod.mk.injEq] at hspec <;>
+      obtain ⟨rfl, rfl, rfl⟩ := hspec
+    · refine Refines.mk' ?_ hI3 hs.opened hphd heda
+      show efuseProgramOnce i v true h = _
+      unfold efuseProgramOnce
+      rw [bind_ok e2]
+      simp only [ne_eq, not_true_eq_false, if_false, if_true]
+      rw [bind_ok e3]
+      simp only [hc, if_true]
       rfl
-    · rw [bind_err e2]
+    · refine Refines.mk' ?_ (hI3.setStatus Spec.stOtpVerifyFail) hs.opened hphd heda
+      show efuseProgramOnce i v true h = _
+      unfold efuseProgramOnce
+      rw [bind_ok e2]
+      simp only [ne_eq, not_true_eq_false, if_false, if_true]
+      rw [bind_ok e3]
+      simp only [hc, if_false]
+      rw [bind_ok (setStatus_run _ _)]
       rfl
+
+/-! ### `load_image`: data packets without a command, collected by a device in image mode -/
+
+theorem strayData_ok (d : Dev) (c : Bytes) (him : d.imageMode = true) (hph : d.phase = .idle) (hc0 : c ≠ [])
+    (hc : c.length ≤ d.maxPacket) : d.strayData c = some { d with image := d.image ++ c } := by
+  unfold Dev.strayData
+  rw [if_pos ⟨him, hph, by simpa using hc0, hc⟩]
+
+theorem sendChunks_stray {h0 : Host} (ab : Bool) :
+    ∀ (cs : List Bytes) (d : Dev) (h1 : Host) (sent st : Nat),
+      (∀ c ∈ cs, c ≠ [] ∧ c.length ≤ d.maxPacket ∧ c.length < 65536) → d.imageMode = true → d.phase = .idle →
+      h1.Is h0 st d [] [] →
+      ∃ h2, sendChunks ab cs sent h1 = (.ok (sent + (cs.map List.length).sum, none), h2) ∧
+        h2.Is h0 st { d with image := d.image ++ cs.flatten } [] [] := by
+  intro cs
+  induction cs with
+  | nil =>
+    intro d h1 sent st _ _ _ hI
+    refine ⟨h1, by simp [sendChunks], ?_⟩
+    simpa using hI
+  | cons c cs ih =>
+    intro d h1 sent st hcs him hph hI
+    obtain ⟨hc0, hc, hc2⟩ := hcs c (by simp)
+    have hstray := strayData_ok d c him hph hc0 hc
+    have hstep : ∃ h2, writeData ab c h1 = (.ok (), h2) ∧ h2.Is h0 st { d with image := d.image ++ c } [] [] := by
+      cases htr : h0.cfg.tr with
+      | serial =>
+        exact writeData_serial hI htr ab c hc2 _ [] (by simpa using stepSerial_data_stray d c hc2 hph _ hstray)
+      | hid =>
+        obtain ⟨h2, e2, hI2⟩ := writeData_hid hI htr ab c hc2
+        rw [stepHid_data_stray d c hc2 hph _ hstray] at hI2
+        exact ⟨h2, e2, hI2⟩
+    obtain ⟨h2, e2, hI2⟩ := hstep
+    obtain ⟨h3, e3, hI3⟩ := ih { d with image := d.image ++ c } h2 (sent + c.length) st
+      (fun x hx => hcs x (by simp [hx])) him hph hI2
+    refine ⟨h3, ?_, ?_⟩
+    · rw [sendChunks_cons_ok e2, e3]
+      simp [Nat.add_assoc]
+    · simpa [List.append_assoc] using hI3
+
+theorem refines_loadImage (h : Host) (d d' : Dev) (data : Bytes) (res : Except HErr Val) (st : Nat)
+    (hs : Synced h d) (hd : d.OK) (hmps : h.mps = some d.maxPacket) (heda : h.eda = false)
+    (hspec : specOp h.cfg.cmdExc h.cfg.usb d (.loadImage data) = some (d', res, st)) :
+    Refines h (.loadImage data) d' res st := by
+  simp only [specOp] at hspec
+  split at hspec <;> rename_i him
+  · simp only [Option.some.injEq, Prod.mk.injEq] at hspec
+    obtain ⟨rfl, rfl, rfl⟩ := hspec
+    have esplit := splitData_ok data h d.maxPacket hmps hd.mp_pos
+    have hcs : ∀ c ∈ split d.maxPacket data, c ≠ [] ∧ c.length ≤ d.maxPacket ∧ c.length < 65536 := by
+      intro c hc
+      have h1 := split_chunks' d.maxPacket hd.mp_pos data c hc
+      have h2 := hd.mp_lt
+      exact ⟨h1.2, h1.1, by omega⟩
+    have hI1 : ({ h with status := Spec.stSuccess } : Host).Is h 0 d [] [] := hs.is.setStatus 0
+    obtain ⟨h2, e2, hI2⟩ := sendChunks_stray (h0 := h) h.eda (split d.maxPacket data) d _ 0 0 hcs him hs.idle hI1
+    rw [split_flatten' _ hd.mp_pos] at hI2
+    refine Refines.mk' ?_ hI2 hs.opened hs.idle heda
+    show loadImage data h = _
+    unfold loadImage
+    rw [bind_ok esplit, bind_ok (setStatus_run _ _)]
+    have e3 : sendDataNoResp (split d.maxPacket data) { h with status := Spec.stSuccess } = (.ok true, h2) := by
+      unfold sendDataNoResp
+      rw [bind_ok (requireOpen_ok { h with status := Spec.stSuccess } hs.opened), bind_ok (get_run _)]
+      simp only []
+      rw [bind_ok e2]
+      simp
+    rw [bind_ok e3]
+    rfl
+  · simp at hspec
+
+/-! ### `read_memory` -/
+
+/-- the device after `k` more commands -/
+def Dev.nextN (d : Dev) : Nat → Dev
+  | 0 => d
+  | k + 1 => d.next.nextN k
+
+theorem nextN_eq : ∀ (k : Nat) (d : Dev), 0 < k → d.phase = .idle →
+    d.nextN k = { d with ncmd := d.ncmd + k, pktCount := 0 } := by
+  intro k
+  induction k with
+  | zero => intro d h; omega
+  | succ k ih =>
+    intro d _ hph
+    by_cases hk : k = 0
+    · subst hk
+      exact next_eq d hph
+    · rw [Dev.nextN, ih d.next (by omega) rfl, next_eq d hph]
+      simp only [Nat.add_assoc, Nat.add_comm 1 k]
+
+/-- the chunk loop of the `UsbDevice` path of `read_memory` -/
+theorem readChunks_ok {h0 : Host} (hop : h0.opened = true) (a m mp rem P n : Nat) (mem : Bytes)
+    (hmp : 0 < mp) (hmp2 : mp < 65536) (hm : m < 4294967296) (hrange : a + n ≤ mem.length)
+    (hmemlt : mem.length < 4294967296)
+    (hL1 : ∀ j, j < P → j * mp < n) (hL2 : n ≤ P * mp)
+    (hlast : (P - 1) * mp + (if rem ≠ 0 then rem else mp) = n) :
+    ∀ (k : Nat) (e : Dev) (h1 : Host) (acc : Bytes) (st : Nat), k ≤ P → e.mem = mem → e.maxPacket = mp →
+      e.faults = [] → e.phase = .idle → h1.Is h0 st e [] [] → acc = (mem.drop a).take (min ((P - k) * mp) n) →
+      ∃ h2, readChunks a m mp rem P k acc h1 = (.ok ((mem.drop a).take n), h2) ∧
+        h2.Is h0 (if k = 0 then st else 0) (e.nextN k) [] [] := by
+  intro k
+  induction k with
+  | zero =>
+    intro e h1 acc st _ _ _ _ _ hI hacc
+    refine ⟨h1, ?_, by simpa [Dev.nextN] using hI⟩
+    rw [hacc, Nat.sub_zero, Nat.min_eq_right hL2]
+    rfl
+  | succ k ih =>
+    intro e h1 acc st hk hmem hemp hef heph hI hacc
+    have hidx : P - (k + 1) < P := by omega
+    have hoff := hL1 _ hidx
+    obtain ⟨len, hlen⟩ : ∃ len, len = (if P - (k + 1) = P - 1 ∧ rem ≠ 0 then rem else mp) := ⟨_, rfl⟩
+    have hsucc : (P - k) * mp = (P - (k + 1)) * mp + mp := by
+      rw [show P - k = (P - (k + 1)).succ by omega, Nat.succ_mul]
+    -- the three arithmetic facts
+    have hF : (P - (k + 1)) * mp + len ≤ n ∧ min ((P - k) * mp) n = (P - (k + 1)) * mp + len := by
+      by_cases hlastidx : P - (k + 1) = P - 1
+      · have hl2 : len = (if rem ≠ 0 then rem else mp) := by
+          rw [hlen]; by_cases hr : rem ≠ 0 <;> simp [hlastidx, hr]
+        have hPk : (P - k) * mp = P * mp := by rw [show P - k = P by omega]
+        rw [hPk, hlastidx, hl2, hlast]
+        exact ⟨Nat.le_refl _, Nat.min_eq_right hL2⟩
+      · have hl2 : len = mp := by rw [hlen]; simp [hlastidx]
+        have hnext : P - k < P := by omega
+        have := hL1 _ hnext
+        rw [hl2]
+        omega
+    obtain ⟨hF1, hF3⟩ := hF
+    have hacc' : acc = (mem.drop a).take ((P - (k + 1)) * mp) := by
+      rw [hacc]; congr 1; omega
+    have hwf : (⟨Spec.cReadMemory, 0, [a + (P - (k + 1)) * mp, len, m]⟩ : CmdPkt).WF :=
+      wf_mk _ _ _ (by decide) (by decide) (by simp)
+        (by intro v hv; simp only [List.mem_cons, List.not_mem_nil, or_false] at hv; rcases hv with rfl | rfl | rfl <;> omega)
+    have hex := exec_readMemory e hef (a + (P - (k + 1)) * mp) len m
+    rw [if_pos (by rw [hmem]; omega), hmem] at hex
+    have hdata : ((mem.drop (a + (P - (k + 1)) * mp)).take len).length = len := by
+      rw [List.length_take, List.length_drop]; omega
+    obtain ⟨h2, e2, h3, e3, hI3⟩ := cmd_readData hI hop _ hwf e.next _ _ hex rfl (by show 0 < e.maxPacket; omega)
+      (by show e.maxPacket < 65536; omega) _ (readMemResp_parse 0 len (by omega) (by omega)) (readMemResp_ne_nil _ _)
+      (by rw [readMemResp_length]; omega) rfl
+    rw [hdata] at e3
+    obtain ⟨h4, e4, hI4⟩ := ih e.next h3 (acc ++ (mem.drop (a + (P - (k + 1)) * mp)).take len) 0 (by omega) hmem hemp hef rfl hI3
+      (by rw [hF3, List.take_add, List.drop_drop, ← hacc'])
+    refine ⟨h4, ?_, ?_⟩
+    · rw [readChunks, ← hlen, bind_ok e2]
+      simp only [if_true]
+      rw [bind_ok e3, bind_ok (get_run _), if_neg (by rw [hI3.status]; simp)]
+      exact e4
+    · rw [if_neg (by omega)]
+      by_cases hk0 : k = 0
+      · subst hk0; rw [if_pos rfl] at hI4; exact hI4
+      · rw [if_neg hk0] at hI4; exact hI4
+
+theorem chunk_arith (n mp : Nat) (hmp : 0 < mp) (hn : 0 < n) (P : Nat)
+    (hP : P = n / mp + (if n % mp ≠ 0 then 1 else 0)) :
+    0 < P ∧ (∀ j, j < P → j * mp < n) ∧ n ≤ P * mp ∧ (P - 1) * mp + (if n % mp ≠ 0 then n % mp else mp) = n := by
+  have hdm := Nat.div_add_mod' n mp
+  have hrlt : n % mp < mp := Nat.mod_lt _ hmp
+  generalize n / mp = q at hP hdm
+  generalize n % mp = r at hP hdm hrlt ⊢
+  have hlast : (P - 1) * mp + (if r ≠ 0 then r else mp) = n := by
+    by_cases hr : r ≠ 0
+    · rw [if_pos hr] at hP ⊢
+      rw [show P - 1 = q by omega]; exact hdm
+    · rw [if_neg hr] at hP ⊢
+      have hq : 0 < q := by
+        rcases Nat.eq_zero_or_pos q with hz | hz
+        · subst hz; simp at hdm; omega
+        · exact hz
+      have hs1 : q = (P - 1).succ := by omega
+      rw [hs1, Nat.succ_mul] at hdm
+      omega
+  have hPpos : 0 < P := by
+    by_cases hr : r ≠ 0
+    · rw [if_pos hr] at hP; omega
+    · rw [if_neg hr] at hP
+      rcases Nat.eq_zero_or_pos q with hz | hz
+      · subst hz; simp at hdm; omega
+      · omega
+  refine ⟨hPpos, ?_, ?_, hlast⟩
+  · intro j hj
+    have h1 : j * mp ≤ (P - 1) * mp := Nat.mul_le_mul_right _ (by omega)
+    by_cases hr : r ≠ 0
+    · rw [if_pos hr] at hlast; omega
+    · rw [if_neg hr] at hlast; omega
+  · have h1 : P * mp = (P - 1) * mp + mp := by
+      rw [show P = (P - 1).succ by omega, Nat.succ_mul]; simp
+    by_cases hr : r ≠ 0
+    · rw [if_pos hr] at hlast; omega
+    · rw [if_neg hr] at hlast; omega
+
+theorem getMaxPacketSize_ok (h : Host) (mp : Nat) (hmps : h.mps = some mp) : getMaxPacketSize h = (.ok mp, h) := by
+  unfold getMaxPacketSize
+  rw [bind_ok (get_run _)]
+  simp only [hmps]
+  rfl
+
+theorem refines_readMemory (h : Host) (d d' : Dev) (a n m : Nat) (fast : Bool) (res : Except HErr Val) (st : Nat)
+    (hs : Synced h d) (hd : d.OK) (hmps : h.mps = some d.maxPacket) (heda : h.eda = false)
+    (hargs : (Op.readMemory a n m fast).argsOK)
+    (hspec : specOp h.cfg.cmdExc h.cfg.usb d (.readMemory a n m fast) = some (d', res, st)) :
+    Refines h (.readMemory a n m fast) d' res st := by
+  obtain ⟨ha, hn, hm⟩ := hargs
+  have hm' := clampMemId_lt hm
+  simp only [specOp] at hspec
+  split at hspec <;> rename_i husb
+  · -- the `UsbDevice` path: one command per max-packet chunk
+    split at hspec <;> rename_i hc
+    · simp only [Option.some.injEq, Prod.mk.injEq] at hspec
+      obtain ⟨rfl, rfl, rfl⟩ := hspec
+      obtain ⟨hn0, hrange⟩ := hc
+      have hmp := hd.mp_pos
+      obtain ⟨P, hP⟩ : ∃ P, P = n / d.maxPacket + (if n % d.maxPacket ≠ 0 then 1 else 0) := ⟨_, rfl⟩
+      obtain ⟨hPpos, hL1, hL2, hlast⟩ := chunk_arith n d.maxPacket hmp hn0 P hP
+      obtain ⟨h2, e2, hI2⟩ := readChunks_ok hs.opened a (clampMemId m) d.maxPacket (n % d.maxPacket) P n d.mem hmp hd.mp_lt
+        hm' hrange hd.mem_lt hL1 hL2 hlast P d h [] h.status (Nat.le_refl _) rfl rfl hd.nofault hs.idle hs.is
+        (by simp)
+      rw [if_neg (by omega), nextN_eq P d hPpos hs.idle, hP] at hI2
+      refine Refines.mk' ?_ hI2 hs.opened hs.idle heda
+      show readMemory a n m fast h = _
+      unfold readMemory
+      rw [bind_ok (get_run _), if_pos (by simpa using husb), bind_ok (getMaxPacketSize_ok h _ hmps), if_neg (by omega)]
+      rw [← hP, bind_ok e2]
+      rfl
+    · simp at hspec
+  · have hnousb : ¬ (h.cfg.usb = true ∧ ¬ fast = true) := by simpa using husb
+    have hrun : runOp (.readMemory a n m fast) h =
+        dataInCmd Spec.cReadMemory [a, n, clampMemId m] .readMemory h := by
+      show readMemory a n m fast h = _
+      unfold readMemory
+      rw [bind_ok (get_run _), if_neg hnousb]
+      rfl
+    have hwf : (⟨Spec.cReadMemory, 0, [a, n, clampMemId m]⟩ : CmdPkt).WF :=
+      wf_mk _ _ _ (by decide) (by decide) (by simp) (by intro v hv; simp at hv; rcases hv with rfl | rfl | rfl <;> assumption)
+    have hex := exec_readMemory d hd.nofault a n (clampMemId m)
+    split at hspec <;> rename_i hc <;> simp only [Option.some.injEq, Prod.mk.injEq] at hspec <;>
+      obtain ⟨rfl, rfl, rfl⟩ := hspec
+    · rw [if_pos hc] at hex
+      have hdata : ((d.mem.drop a).take n).length = n := by
+        rw [List.length_take, List.length_drop]; omega
+      obtain ⟨h3, e3, hI3⟩ := dataInCmd_ok hs hd _ _ .readMemory hwf d.next _ _ hex rfl rfl _
+        (readMemResp_parse 0 n (by omega) hn) (readMemResp_ne_nil _ _)
+        (by rw [readMemResp_length]; omega) rfl rfl hdata.symm
+      rw [next_eq d hs.idle] at hI3
+      exact Refines.mk' (hrun.trans e3) hI3 hs.opened hs.idle heda
+    · rw [if_neg hc] at hex
+      obtain ⟨h3, e3, hI3⟩ := dataInCmd_refused hs _ _ .readMemory hwf d.next Spec.stMemoryRangeInvalid
+        (by decide) (by decide) hex rfl
+      rw [next_eq d hs.idle] at hI3
+      exact Refines.mk' (hrun.trans e3) hI3 hs.opened hs.idle heda
+
+/-! ### the specified device stays well-formed -/
+
+theorem programFuse_OK (d : Dev) (i v : Nat) (hd : d.OK) (hv : v < 4294967296) :
+    (d.programFuse i v).OK ∧ (d.programFuse i v).maxPacket = d.maxPacket ∧ (d.programFuse i v).phase = d.phase := by
+  have hf := programFuse_fuses_lt d i v hd.fuses_lt hv
+  unfold Dev.programFuse at hf ⊢
+  split
+  · exact ⟨hd, rfl, rfl⟩
+  · rename_i hl
+    rw [if_neg hl] at hf
+    exact ⟨⟨hd.mp_pos, hd.mp_lt, hd.mem_lt, hd.nofault, hd.props_lt, hf, hd.noabort, hd.keystore_lt⟩, rfl, rfl⟩
+
+/-- the specified device after an operation is again a well-formed device with the same packet size -/
+theorem specOp_OK (ce usb : Bool) (d d' : Dev) (op : Op) (res : Except HErr Val) (st : Nat)
+    (hd : d.OK) (hidle : d.phase = .idle) (hargs : op.argsOK) (hspec : specOp ce usb d op = some (d', res, st)) :
+    d'.OK ∧ d'.maxPacket = d.maxPacket ∧ d'.phase = .idle := by
+  have hd0 := hd
+  obtain ⟨h1, h2, h3, h4, h5, h6, h7, h8⟩ := hd
+  cases op with
+  | flashProgramOnce i data =>
+    simp only [specOp] at hspec
+    split at hspec
+    · rename_i a b c e
+      simp only [Option.some.injEq, Prod.mk.injEq] at hspec
+      obtain ⟨rfl, -, -⟩ := hspec
+      have hv : fromLe [a, b, c, e] < 4294967296 := by have := fromLe_lt [a, b, c, e]; simpa using this
+      obtain ⟨hok, hmp, hph⟩ := programFuse_OK d i _ hd0 hv
+      exact ⟨⟨hok.mp_pos, hok.mp_lt, hok.mem_lt, hok.nofault, hok.props_lt, hok.fuses_lt, hok.noabort, hok.keystore_lt⟩,
+        hmp, hph.trans hidle⟩
+    · simp at hspec
+  | efuseProgramOnce i v verify =>
+    obtain ⟨hok, hmp, hph⟩ := programFuse_OK d i v hd0 hargs.2
+    simp only [specOp] at hspec
+    split at hspec
+    · split at hspec <;> simp only [Option.some.injEq, Prod.mk.injEq] at hspec <;> obtain ⟨rfl, -, -⟩ := hspec <;>
+        exact ⟨⟨hok.mp_pos, hok.mp_lt, hok.mem_lt, hok.nofault, hok.props_lt, hok.fuses_lt, hok.noabort, hok.keystore_lt⟩,
+          hmp, hph.trans hidle⟩
+    · simp only [Option.some.injEq, Prod.mk.injEq] at hspec
+      obtain ⟨rfl, -, -⟩ := hspec
+      exact ⟨⟨hok.mp_pos, hok.mp_lt, hok.mem_lt, hok.nofault, hok.props_lt, hok.fuses_lt, hok.noabort, hok.keystore_lt⟩,
+        hmp, hph.trans hidle⟩
+  | _ =>
+    simp only [specOp, reduceCtorEq] at hspec
+    try split at hspec
+    all_goals (try split at hspec)
+    all_goals (try split at hspec)
+    all_goals (try (simp only [Option.some.injEq, Prod.mk.injEq, reduceCtorEq] at hspec))
+    all_goals (obtain ⟨rfl, -, -⟩ := hspec)
+    all_goals refine ⟨⟨h1, h2, ?_, h4, ?_, h6, h7, ?_⟩, rfl, hidle⟩
+    all_goals (try exact h3)
+    all_goals (try exact h5)
+    all_goals (try exact h8)
+    all_goals first
+      | (intro q hq
+         simp only [List.mem_cons, List.mem_filter] at hq
+         rcases hq with rfl | ⟨hq, -⟩
+         · exact hargs.2
+         · exact h5 q hq)
+      | (show (splice d.mem _ _).length < _
+         rw [splice_length _ _ _ (by first | (rw [fillPattern_length]; assumption) | (rw [List.length_replicate]; assumption) | assumption)]
+         exact h3)
+      | (show (List.replicate _ _).length < _
+         rw [List.length_replicate]; exact h3)
+      | exact hargs
+
+/-! ### the refinement theorems -/
 
 /-- One operation against the live reference device, either transport. -/
 theorem op_refines (h : Host) (d d' : Dev) (op : Op) (res : Except HErr Val) (st : Nat)
-    (husb : h.cfg.usb = false)
     (hs : Synced h d) (hd : d.OK) (hmps : h.mps = some d.maxPacket) (heda : h.eda = false)
-    (hargs : op.argsOK) (hspec : specOp h.cfg.cmdExc d op = some (d', res, st)) :
+    (hargs : op.argsOK) (hspec : specOp h.cfg.cmdExc h.cfg.usb d op = some (d', res, st)) :
     Refines h op d' res st := by
+  have hf := hd.nofault
   cases op with
   | getProperty t i => exact refines_getProperty h d d' t i res st hs hd heda hargs hspec
   | setProperty t v => exact refines_setProperty h d d' t v res st hs hd heda hargs hspec
   | fillMemory a n p => exact refines_fillMemory h d d' a n p res st hs hd heda hargs hspec
   | eraseRegion a n m => exact refines_eraseRegion h d d' a n m res st hs hd heda hargs hspec
   | eraseAll m => exact refines_eraseAll h d d' m res st hs hd heda hargs hspec
-  | readMemory a n m f => exact refines_readMemory h d d' a n m f res st husb hs hd heda hargs hspec
+  | readMemory a n m f => exact refines_readMemory h d d' a n m f res st hs hd hmps heda hargs hspec
   | writeMemory a data m => exact refines_writeMemory h d d' a data m res st hs hd hmps heda hargs hspec
   | receiveSbFile data c => exact refines_receiveSbFile h d d' data c res st hs hd hmps heda hargs hspec
+  | loadImage data => exact refines_loadImage h d d' data res st hs hd hmps heda hspec
+  | flashReadOnce i c => exact refines_flashReadOnce h d d' i c res st hs hd heda hargs hspec
+  | flashProgramOnce i data => exact refines_flashProgramOnce h d d' i data res st hs hd heda hargs hspec
+  | efuseReadOnce i => exact refines_efuseReadOnce h d d' i res st hs hd heda hargs hspec
+  | efuseProgramOnce i v c => exact refines_efuseProgramOnce h d d' i v c res st hs hd heda hargs hspec
+  | flashReadResource a n o => exact refines_flashReadResource h d d' a n o res st hs hd heda hargs hspec
+  | kpSetUserKey t data => exact refines_kpSetUserKey h d d' t data res st hs hd hmps heda hargs hspec
+  | kpWriteKeyStore data => exact refines_kpWriteKeyStore h d d' data res st hs hd hmps heda hargs hspec
+  | kpReadKeyStore => exact refines_kpReadKeyStore h d d' res st hs hd heda hspec
+  | execute a g sp =>
+    obtain ⟨ha, hg, hsp⟩ := hargs
+    simp only [specOp, Option.some.injEq, Prod.mk.injEq] at hspec
+    obtain ⟨rfl, rfl, rfl⟩ := hspec
+    exact refines_logged h d _ Spec.cExecute [a, g, sp] hs heda
+      (wf_mk _ _ _ (by decide) (by decide) (by simp) (by intro v hv; simp at hv; rcases hv with rfl | rfl | rfl <;> assumption))
+      (exec_logOnly d hf _ _ (by decide)) rfl
+  | call a g =>
+    obtain ⟨ha, hg⟩ := hargs
+    simp only [specOp, Option.some.injEq, Prod.mk.injEq] at hspec
+    obtain ⟨rfl, rfl, rfl⟩ := hspec
+    exact refines_logged h d _ Spec.cCall [a, g] hs heda
+      (wf_mk _ _ _ (by decide) (by decide) (by simp) (by intro v hv; simp at hv; rcases hv with rfl | rfl <;> assumption))
+      (exec_logOnly d hf _ _ (by decide)) rfl
+  | eraseAllUnsecure =>
+    simp only [specOp, Option.some.injEq, Prod.mk.injEq] at hspec
+    obtain ⟨rfl, rfl, rfl⟩ := hspec
+    exact refines_logged h d _ Spec.cFlashEraseAllUnsecure [] hs heda
+      (wf_mk _ _ _ (by decide) (by decide) (by simp) (by intro v hv; simp at hv))
+      (exec_logOnly d hf _ _ (by decide)) rfl
+  | configureMemory a m =>
+    obtain ⟨ha, hm⟩ := hargs
+    simp only [specOp, Option.some.injEq, Prod.mk.injEq] at hspec
+    obtain ⟨rfl, rfl, rfl⟩ := hspec
+    exact refines_logged h d _ Spec.cConfigureMemory [m, a] hs heda
+      (wf_mk _ _ _ (by decide) (by decide) (by simp) (by intro v hv; simp at hv; rcases hv with rfl | rfl <;> assumption))
+      (exec_logOnly d hf _ _ (by decide)) rfl
+  | reliableUpdate a =>
+    have ha : a < 4294967296 := hargs
+    simp only [specOp, Option.some.injEq, Prod.mk.injEq] at hspec
+    obtain ⟨rfl, rfl, rfl⟩ := hspec
+    exact refines_logged h d _ Spec.cReliableUpdate [a] hs heda
+      (wf_mk _ _ _ (by decide) (by decide) (by simp) (by intro v hv; simp at hv; rcases hv with rfl; assumption))
+      (exec_logOnly d hf _ _ (by decide)) rfl
+  | kpEnroll =>
+    simp only [specOp, Option.some.injEq, Prod.mk.injEq] at hspec
+    obtain ⟨rfl, rfl, rfl⟩ := hspec
+    exact refines_logged h d _ Spec.cKeyProvisioning [Spec.kpEnroll] hs heda
+      (wf_mk _ _ _ (by decide) (by decide) (by simp) (by intro v hv; simp at hv; rcases hv with rfl; decide))
+      (exec_kpLog d hf _ (Or.inl rfl)) rfl
+  | kpSetIntrinsicKey t z =>
+    obtain ⟨ht, hz⟩ := hargs
+    simp only [specOp, Option.some.injEq, Prod.mk.injEq] at hspec
+    obtain ⟨rfl, rfl, rfl⟩ := hspec
+    exact refines_logged h d _ Spec.cKeyProvisioning [Spec.kpSetIntrinsicKey, t, z] hs heda
+      (wf_mk _ _ _ (by decide) (by decide) (by simp)
+        (by intro v hv; simp at hv; rcases hv with rfl | rfl | rfl <;> first | assumption | decide))
+      (exec_kpLog d hf _ (Or.inr (Or.inr (Or.inr ⟨t, z, rfl⟩)))) rfl
+  | kpWriteNonvolatile m =>
+    have hm : m < 4294967296 := hargs
+    simp only [specOp, Option.some.injEq, Prod.mk.injEq] at hspec
+    obtain ⟨rfl, rfl, rfl⟩ := hspec
+    exact refines_logged h d _ Spec.cKeyProvisioning [Spec.kpWriteNonVolatile, m] hs heda
+      (wf_mk _ _ _ (by decide) (by decide) (by simp)
+        (by intro v hv; simp at hv; rcases hv with rfl | rfl <;> first | assumption | decide))
+      (exec_kpLog d hf _ (Or.inr (Or.inl ⟨m, rfl⟩))) rfl
+  | kpReadNonvolatile m =>
+    have hm : m < 4294967296 := hargs
+    simp only [specOp, Option.some.injEq, Prod.mk.injEq] at hspec
+    obtain ⟨rfl, rfl, rfl⟩ := hspec
+    exact refines_logged h d _ Spec.cKeyProvisioning [Spec.kpReadNonVolatile, m] hs heda
+      (wf_mk _ _ _ (by decide) (by decide) (by simp)
+        (by intro v hv; simp at hv; rcases hv with rfl | rfl <;> first | assumption | decide))
+      (exec_kpLog d hf _ (Or.inr (Or.inr (Or.inl ⟨m, rfl⟩)))) rfl
   | _ => simp [specOp] at hspec
 
 set_option linter.unusedVariables false in
 /-- One operation, serial link: `McuBoot` + `MbootSerialProtocol` against the live reference device. -/
 theorem op_refines_serial (h : Host) (d d' : Dev) (op : Op) (res : Except HErr Val) (st : Nat)
-    (htr : h.cfg.tr = .serial) (husb : h.cfg.usb = false)
+    (htr : h.cfg.tr = .serial)
     (hs : Synced h d) (hd : d.OK) (hmps : h.mps = some d.maxPacket) (heda : h.eda = false)
-    (hargs : op.argsOK) (hspec : specOp h.cfg.cmdExc d op = some (d', res, st)) :
+    (hargs : op.argsOK) (hspec : specOp h.cfg.cmdExc h.cfg.usb d op = some (d', res, st)) :
     ∃ h', runOp op h = (res, h') ∧ Synced h' d' ∧ h'.status = st ∧ h'.cfg = h.cfg ∧ h'.mps = h.mps ∧ h'.eda = false :=
-  op_refines h d d' op res st husb hs hd hmps heda hargs hspec
+  op_refines h d d' op res st hs hd hmps heda hargs hspec
 
 set_option linter.unusedVariables false in
-/-- One operation, USB-HID link (device object not a `UsbDevice`, i.e. the un-chunked `read_memory` path). -/
+/-- One operation, USB-HID link. -/
 theorem op_refines_hid (h : Host) (d d' : Dev) (op : Op) (res : Except HErr Val) (st : Nat)
-    (htr : h.cfg.tr = .hid) (husb : h.cfg.usb = false)
+    (htr : h.cfg.tr = .hid)
     (hs : Synced h d) (hd : d.OK) (hmps : h.mps = some d.maxPacket) (heda : h.eda = false)
-    (hargs : op.argsOK) (hspec : specOp h.cfg.cmdExc d op = some (d', res, st)) :
+    (hargs : op.argsOK) (hspec : specOp h.cfg.cmdExc h.cfg.usb d op = some (d', res, st)) :
     ∃ h', runOp op h = (res, h') ∧ Synced h' d' ∧ h'.status = st ∧ h'.cfg = h.cfg ∧ h'.mps = h.mps ∧ h'.eda = false :=
-  op_refines h d d' op res st husb hs hd hmps heda hargs hspec
+  op_refines h d d' op res st hs hd hmps heda hargs hspec
+
 end SpsdkVerif.Mboot
